@@ -12,2040 +12,2426 @@ Definition show_fres (r : fres) : string :=
   end.
 Definition check (rs : list rune) : string := digest (show_fres (format_res rs)).
 Definition full (rs : list rune) : string := show_fres (format_res rs).
-Eval vm_compute in ("<<<M3631>>>" ++ check (runes_of_ascii "// top
-options
-    // c0
-{ // c1a
-  // c1b
-StringPrefixLenType // c2a
-  // c2b
-= u64 // c4
-; // c5a
-  // c5b
+Eval vm_compute in ("<<<M3640>>>" ++ check (runes_of_ascii "// top
+options // c0
+{ StringPrefixLenType
+    // c2
+=
+    // c3
+u64 // c4a
+  // c4b
+; // c5
 ArrayPrefixLenType = // c7
-u16 ; FixedStringPadChar =
-    // c11
-' ' ;
+u16 // c8
+; // c9a
+  // c9b
+FixedStringPadChar = // c11
+' ' // c12
+;
     // c13
 }
     // c14
 packet // c15a
   // c15b
-Logon {
-    // c17
-i32 // c18
-msgKind // c19a
-  // c19b
-, // c20a
-  // c20b
-repeat
-    // c21
-InOrderid65 { // c23a
+Logon // c16a
+  // c16b
+{ // c17a
+  // c17b
+i32
+    // c18
+msgKind , repeat InOrderid65 { // c23a
   // c23b
-u8 // c24
-pad0 ,
-    // c26
-} // c27a
-  // c27b
-, // c28a
+u8
+    // c24
+pad0 // c25a
+  // c25b
+, // c26
+} , // c28a
   // c28b
-i8 // c29a
-  // c29b
-tag7 // c30
-,
+i8
+    // c29
+tag7 ,
     // c31
-@leftPad // c32
-( // c33a
-  // c33b
-' '
-    // c34
-) char[ // c36
-12 // c37
-] // c38
+@leftPad
+    // c32
+( ' ' // c34a
+  // c34b
+)
+    // c35
+char[ // c36a
+  // c36b
+12
+    // c37
+]
+    // c38
 x // c39a
   // c39b
-,
-    // c40
-} // c41
-packet
-    // c42
-Leg // c43
-{ // c44
-char[] f1 // c46a
-  // c46b
+, }
+    // c41
+packet // c42a
+  // c42b
+Leg { // c44a
+  // c44b
+char[] // c45
+f1 // c46
 , // c47a
   // c47b
-repeat char[ // c49
-5 // c50a
-  // c50b
-] Px
-    // c52
+repeat
+    // c48
+char[ // c49
+5 // c50
+]
+    // c51
+Px // c52a
+  // c52b
 , // c53
 InQty34 // c54
-{ // c55
-repeat // c56a
-  // c56b
-char[ // c57
-6 // c58
-] // c59
+{ repeat char[
+    // c57
+6 // c58a
+  // c58b
+] // c59a
+  // c59b
 Qty // c60
 , char[ // c62
-7
-    // c63
+7 // c63
 ] // c64
-seqNo // c65a
-  // c65b
-,
-    // c66
-string count // c68a
-  // c68b
-,
-    // c69
-}
-    // c70
-, Logon // c72a
-  // c72b
-, // c73a
+seqNo // c65
+, string
+    // c67
+count
+    // c68
+, } // c70a
+  // c70b
+, Logon , // c73a
   // c73b
-} packet Party
-    // c76
-{ @leftPad
-    // c78
-(
-    // c79
-'0' // c80
-) // c81a
-  // c81b
-char[
+} // c74a
+  // c74b
+packet // c75
+Party { @leftPad // c78
+( // c79
+'0'
+    // c80
+) char[
     // c82
-10
-    // c83
-] OrderId // c85
-,
-    // c86
-string // c87a
-  // c87b
-Tail // c88
+10 // c83
+] OrderId , // c86
+string Tail // c88
 , // c89a
   // c89b
-}
-    // c90
-packet Fill
-    // c92
-{ // c93a
-  // c93b
+} packet Fill // c92a
+  // c92b
+{
+    // c93
 zchar[ // c94a
   // c94b
-5 ]
-    // c96
-venue
-    // c97
-, zchar[ 3 ] clOrdID // c102
+5 // c95
+] // c96a
+  // c96b
+venue // c97
+, zchar[
+    // c99
+3 // c100
+] // c101
+clOrdID
+    // c102
 , // c103a
   // c103b
-InRef95 { // c105
-InLastpx25 // c106
-{ // c107a
-  // c107b
-u8 pad0
-    // c109
-,
-    // c110
-}
-    // c111
+InRef95 // c104
+{
+    // c105
+InLastpx25
+    // c106
+{ // c107
+u8 pad0 , // c110
+} // c111
 , // c112
-float64 OrderId
-    // c114
-, // c115
-i32 // c116
-f1 // c117a
-  // c117b
+float64 // c113a
+  // c113b
+OrderId // c114a
+  // c114b
 ,
-    // c118
-float32 x // c120
-, // c121
-char[] // c122a
-  // c122b
-seqNo // c123a
-  // c123b
-, // c124
-} // c125
-, repeat
-    // c127
+    // c115
+i32 // c116a
+  // c116b
+f1 , // c118
+float32
+    // c119
+x // c120
+, // c121a
+  // c121b
+char[]
+    // c122
+seqNo // c123
+, }
+    // c125
+,
+    // c126
+repeat // c127a
+  // c127b
 string // c128
-seqNo // c129a
-  // c129b
-, } // c131
-root // c132
-packet Heartbeat // c134a
-  // c134b
-{ repeat // c136
-Leg
-    // c137
-, // c138a
-  // c138b
+seqNo // c129
+, // c130
+} root // c132a
+  // c132b
+packet // c133
+Heartbeat // c134
+{ repeat Leg ,
+    // c138
 u32 seqNo // c140a
   // c140b
 , // c141
-u16
-    // c142
+u16 // c142
 tag7 // c143
-, u32 // c145a
+, // c144
+u32 // c145a
   // c145b
 Flags // c146
-@lengthOf( Body
-    // c148
-)
-    // c149
-,
-    // c150
-match // c151
-tag7 as
-    // c153
-Body // c154a
-  // c154b
-{ // c155a
-  // c155b
-[ 195 , 75 // c159a
+@lengthOf( // c147a
+  // c147b
+Body // c148
+) // c149
+, // c150a
+  // c150b
+match tag7 as // c153a
+  // c153b
+Body
+    // c154
+{ // c155
+[
+    // c156
+195
+    // c157
+, 75 // c159a
   // c159b
-] : Party // c162a
-  // c162b
-,
-    // c163
-171 : Fill // c166a
+]
+    // c160
+: Party
+    // c162
+, // c163a
+  // c163b
+171 // c164a
+  // c164b
+: // c165
+Fill // c166a
   // c166b
+, // c167
+78 // c168
+: // c169
+Logon , // c171a
+  // c171b
+142 : // c173a
+  // c173b
+Leg
+    // c174
+, } // c176
 ,
-    // c167
-78 : // c169a
-  // c169b
-Logon
-    // c170
-,
-    // c171
-142
-    // c172
-:
-    // c173
-Leg // c174
-, // c175
-} ,
     // c177
-u32 Note // c179a
-  // c179b
-@calculatedFrom( ""CRC32""
-    // c181
-) // c182
+u32 // c178
+Note @calculatedFrom( // c180
+""CRC32"" // c181
+) // c182a
+  // c182b
 , // c183
-} ")).
-Eval vm_compute in ("<<<M412>>>" ++ check (runes_of_ascii "  root packet packetx { char[]  pack @lengthOf(
-    string_
-    // " ++ [128512]%N ++ runes_of_ascii " emoji
-    ) `doc`,
-    u32  float @lengthOf( a1) // `tick` ""quote"" 'q'
-`two words` , match  a1 as
-    // " ++ [27880; 37322]%N ++ runes_of_ascii "
-    o {7 : _x
-    ,
-} , repeat msg_type { o uint8x
-`crlf
-line` , }
-,char[] // `tick` ""quote"" 'q'
-u8x @lengthOf(msg_type
-)
-// " ++ [128512]%N ++ runes_of_ascii " emoji
-//
-,@calculatedFrom( ""CRC32"" )
-    i16 repeatCount
-@calculatedFrom(""a\""b""  ) , zchar[
-10 ]_x
-`line1
-line2` ,	zchar[
-10 ]
-    x `u8 x,` ,char[  0123456789
-]
-    uint8x , @calculatedFrom( ""x y"" ) int32
-//	t
-// c
-i8i8
-, }	options// " ++ [27880; 37322]%N ++ runes_of_ascii "
-{
-matchKey =""it's"" } packet
-    msg_type // packet A { u8 x, }
-{
+}
+    // c184
+")).
+Eval vm_compute in ("<<<M184>>>" ++ check (runes_of_ascii "MetaData float {
+    lengthOf u128 `tab	here` ,u x ,
+metadata crc `line1
+line2` ,
+} root
+packet//
+trueish { @leftPad (
+'0'
+    ) repeat zchar[ 10 ] lengthOf `u8 x,`
+    ,@leftPad
+// " ++ [27880; 37322]%N ++ runes_of_ascii "
 // trailing space 
-//
-match lengthOf as Logon { [ ""x y"" , ""a	b"", ""{,}"" ,  """ ++ [28040; 24687]%N ++ runes_of_ascii """,
-    ""{,}"" ,""{,}""
+('\x00'	) zchar[ 255 ] tag
+// a // b
+// @lengthOf(
+,
+@leftPad	(
+    ) u128 trueish, chars@lengthOf(
+    i64_
+) `it's` //	t
+,
+    @tag( 10 ) zchar[
+    007 ] asx, char[
+1]
+    zchar,
+// `tick` ""quote"" 'q'
+// trailing space 
+@tag( 7
+    // packet A { u8 x, }
+    ) @calculatedFrom(""packet""
+    )	match  f32a as
+uint8x{
+00  :Header , 007// trailing space 
+: charz ,[ 255 , """ ++ [233]%N ++ runes_of_ascii "t" ++ [233]%N ++ runes_of_ascii """ ] :
+rootA
+    // `tick` ""quote"" 'q'
+    ""it's"" :
+    lengthOf
+,""x y"" :
+pack //x
+,
+""" ++ [28040; 24687]%N ++ runes_of_ascii """
+: _x , } , repeat Header { char[ 7] i8i8 ,char  msg_type @lengthOf(pack ) `line1
+line2`
+,
+// packet A { u8 x, }
+// a // b
+uint8
+crc @lengthOf(
+zchar ) `line1
+line2` ,} , } packet Foo
+    { } packet// @lengthOf(
+Foo { zchar[0123456789
     ]
-    // packet A { u8 x, }
-    : asx, [ """ ++ [233]%N ++ runes_of_ascii "t" ++ [233]%N ++ runes_of_ascii """
-] :
-trueish , 255
-    : Pad ,
-[""`tick`""
-, ""{,}"" ,// " ++ [128512]%N ++ runes_of_ascii " emoji
-4294967296
-, 4294967296, ""a\""b"" , ""\" ++ [233]%N ++ runes_of_ascii """
-, 0123456789 ] : u128 ,
-    ""it's"" // c
-: pack	, ""abc"":o,
-    }
-    , f32 zchar `it's`,@calculatedFrom( ""a	b"" )zchar[
-1
-]
-    msg_type // trailing space 
-@calculatedFrom( ""it's""
-) , @calculatedFrom( ""packet"" ) BodyLength{ i16 // trailing space 
-_x`{ , }`
-    //x
-    , i8
-    body `crlf
-line` ,  }
-    // packet A { u8 x, }
-    , repeat i64 uint8x
-    `say ""hi""`, // c
-} packet// a // b
-chars{ match x as options1 { 3 : //
-tag
-10
-    //x
-    :
-// a // b
-// a // b
-repeatCount[
-    65535 ] :
-len ,255 : tag  00 :
-    BodyLength }, @calculatedFrom( ""{,}"" ) MetaDataX,
-@tag(
-0
-// trailing space 
-//	t
-)repeat
-stringy	len , //	t
-@calculatedFrom( ""a	b"" )/// triple
-zchar[ 0123456789] lengthOf @lengthOf(
-A
-    )
-    `u8 x,` , @lengthOf(falsey
-    ) T
-    `// not a comment`
-,i8i8,Logon  { match
-crc as BodyLength { ""1"" : // trailing space 
-trueish ,
-    // " ++ [27880; 37322]%N ++ runes_of_ascii "
-    ""a\""b""
-    :
-matchKey , [ ""x y""] : tag
-    ,
-// trailing space 
-// " ++ [128512]%N ++ runes_of_ascii " emoji
-}
-, float @calculatedFrom(
-    """ ++ [233]%N ++ runes_of_ascii "t" ++ [233]%N ++ runes_of_ascii """ ) `line1
-line2` , msg_type@lengthOf(  i8i8)
-, calculatedFrom uint8x`tab	here`,
-// a // b
-//	t
-}
-    ,
-    }")).
-Eval vm_compute in ("<<<M320>>>" ++ check (runes_of_ascii "options { lengthOf =
-""CRC32"" ; stringy = uint16;  u8x =float32 ; x_y_z
-    // c
-    =  zchar[ 007]
-repeatCount  = ""a\""b"" ;
+    packetx
+    @calculatedFrom(
+""packet"" // packet A { u8 x, }
+)
+    `doc`  , zchar @calculatedFrom( ""\n""//	t
+)
+`
+` , @leftPad  ( '\x00' )
+    @tag( // trailing space 
+65535 ) char[ 0
+/// triple
 // c
+] metadata@calculatedFrom( ""a\""b"" ), repeat
+    lengthOf{ lengthOf
+`" ++ [233]%N ++ runes_of_ascii "`
+    // `tick` ""quote"" 'q'
+    ,
+} , As , }
+packet BodyLength {//x
+@calculatedFrom( ""a\""b""
+)
+    @lengthOf( x ) @tag( 00
+) Packet zchar
+    `` ,
+@tag(0123456789 )	repeat	char[ 255 ]  x `it's`,// a // b
+u
+// " ++ [128512]%N ++ runes_of_ascii " emoji
+// c
+{ match BodyLength
+as
+// packet A { u8 x, }
+// `tick` ""quote"" 'q'
+tag
+    {3
+: matchKey ,} ,
+} ,@tag( 0123456789 )
+    // " ++ [128512]%N ++ runes_of_ascii " emoji
+    char	asx `line1
+line2`,@lengthOf( chars ) @calculatedFrom(
+""a	b"" )f64 len
+    , match int as //x
+BodyLength { 1
+:
+    Header ,[ 0 ] :// c
+tag
+""" ++ [28040; 24687]%N ++ runes_of_ascii """ :asx, } , @leftPad
+( ' '
+    ) metadata `crlf
+line` ,
+// `tick` ""quote"" 'q'
+// trailing space 
+len
+@lengthOf( metadata
+    ), zchar[  65535 ]
+    A
+@lengthOf( // c
+trueish )
+,@leftPad ( '0'
+)
+repeatCount Z9_
+    `" ++ [233]%N ++ runes_of_ascii "`  ,
+} 	 ")).
+Eval vm_compute in ("<<<M1100>>>" ++ check (runes_of_ascii "options
+{} packet
+    // packet A { u8 x, }
+    packetx {
+crc charz
+``
+    ,leftPad ,
+@tag(3 ) repeat
+uint64  u128 `doc` ,
+@tag(
+    007 )
+// c
+// `tick` ""quote"" 'q'
+Pad roots /// triple
+,
+    @calculatedFrom(// `tick` ""quote"" 'q'
+""CRC32"" ) u8x metadata , @tag( 1 ) zchar[0123456789 ]  i8i8  `a\` , match a1
+as
+As { ""a	b""
+:roots, [
+    ""\" ++ [233]%N ++ runes_of_ascii """ , ""abc"" //
+] :string_ , }  ,
+repeat Header { match
+// " ++ [128512]%N ++ runes_of_ascii " emoji
+// c
+f32a as
+    _x { 4294967296 :
+    // @lengthOf(
+    repeatCount , 7
 //	t
-}
-MetaData trueish { As roots `" ++ [28040; 24687; 31867; 22411]%N ++ runes_of_ascii "`
-, char[ 00 ] Packet// c
-, } root
-packet roots
-{ int8 Logon, body@lengthOf( lengthOf
-) `
-` , @rightPad (	'0' )
-    Packet@calculatedFrom(""x y""
-)`a\` ,
-@lengthOf( T ) match matchKey as _x// trailing space 
-{ """ ++ [128512]%N ++ runes_of_ascii """	:
-stringy ,
-4294967296:  x_y_z ,""\n""
-: leftPad[
-42 , 42
-    , ""it's"" , ""\n"" ,""// no comment""	] : asx ,} , char[
-    10// trailing space 
-]BodyLength ,
-@leftPad (	'0'
-) char[]
-    /// triple
-    Z9_ `crlf
-line`, string falsey
-    , int16 // c
-asx  @calculatedFrom( ""x y"" ) ,u128 Z9_ `it's` ,
-    @rightPad
+// @lengthOf(
+:
+    //x
+    u8x
+    , 7 : As ,}// " ++ [128512]%N ++ runes_of_ascii " emoji
+, i64
+repeatCount @lengthOf( a1 ) ,}
+    ,
+// " ++ [128512]%N ++ runes_of_ascii " emoji
+// " ++ [27880; 37322]%N ++ runes_of_ascii "
+} packet
+pack
+{zchar[ // a // b
+0 ] stringy, } /// triple
+root
+packet
+As {
+    // @lengthOf(
+    match // `tick` ""quote"" 'q'
+u8x as packetx //	t
+{
+    7 : uint8x
+65535 :int
+1: T  ,
+    ""{,}""
+    :
+Foo
+    ,  0123456789
 // " ++ [128512]%N ++ runes_of_ascii " emoji
 // @lengthOf(
-( '0'
-)Packet {
-    // " ++ [128512]%N ++ runes_of_ascii " emoji
-    int64
-    float ,
-repeat leftPad{
-repeat
-Z9_ {
-    match T
-as lengthOf{ ""`tick`"" :msg_type""1"" : x_y_z , 0 : chars , } ,
-    } , repeat trueish
-    { zchar[
-255 ]
-crc	`doc` , char Logon @lengthOf( _x
-    // " ++ [128512]%N ++ runes_of_ascii " emoji
-    )
-,
-    //
-    a1 `doc`,
-//x
-//	t
-} , match msg_type as zchar { ""it's"" // c
-:
-/// triple
-// packet A { u8 x, }
-body
-, """ ++ [28040; 24687]%N ++ runes_of_ascii """ : // `tick` ""quote"" 'q'
-u,} ,} , } ,
-}
-packet// `tick` ""quote"" 'q'
-As// " ++ [27880; 37322]%N ++ runes_of_ascii "
-{
-@leftPad (
-    // c
-    '\x00' ) @tag( 255
-    )
-    @lengthOf( // `tick` ""quote"" 'q'
-o
-)zchar[ 42 ] string_ @calculatedFrom(
-""a\""b""	)`" ++ [28040; 24687; 31867; 22411]%N ++ runes_of_ascii "`
-, char[] repeatCount//	t
-@lengthOf(
-calculatedFrom) ,metadata @calculatedFrom(
-    ""abc""
-) `two words`
-    ,
-// `tick` ""quote"" 'q'
-// c
-@lengthOf(matchKey ) match
-packetx as falsey { 007
-: A,""1"" : packetx , //
-7 :charz
-, [ 65535 ]:stringy 65535
-    :a1 [  ""a	b""
-, 1] :
-    Logon
-// a // b
-// " ++ [128512]%N ++ runes_of_ascii " emoji
-}, }")).
-Eval vm_compute in ("<<<M499>>>" ++ check (runes_of_ascii "  packet trueish { match
-    options1 as
-    Packet{[
-    ""a\\"" , 3	, ""\" ++ [233]%N ++ runes_of_ascii """ //
-,0123456789 ]  : Packet
-    ,""// no comment""
-    : BodyLength,
-[
-    10 ]: //	t
-stringy , """ ++ [28040; 24687]%N ++ runes_of_ascii """ :  metadata [  ""`tick`""
-    ,
-7 , ""// no comment"" ] :int ,65535 :
-//x
-// packet A { u8 x, }
-packetx ,
-    } ,}
-    packet
-    f32a
-{  @calculatedFrom( //	t
-""{,}"" )
-char[] len `doc`
-    , @leftPad
-    ( '\x00'
-    ) repeat char[] Z9_ `tab	here` ,
-match MetaDataX
-// c
-// packet A { u8 x, }
-as crc {
-    ""a	b""
-    :	Pad , 10
-:
-matchKey  [
-1 ,""{,}"" ,3 ] :
-    uint8x , ""x y"" :
-    Header , 7 // trailing space 
-: repeatCount ,[ ""a\\"" , ""a\""b""
-    // " ++ [128512]%N ++ runes_of_ascii " emoji
-    , 10] : a1 ,
-} ,
-@calculatedFrom(""a\\"" )
-    //x
-    @leftPad
-// a // b
-// trailing space 
-( ) @leftPad
-    ( '\x00'	)calculatedFrom
-`tab	here` , @rightPad (// c
-'\x00' )
-    float32
-body ,  } packet
-    Pad {Packet
-    @calculatedFrom(
-    ""a	b""
-// trailing space 
-// a // b
-), @tag(
-4294967296
-    ) @rightPad// " ++ [128512]%N ++ runes_of_ascii " emoji
-( ) @calculatedFrom(
-    // a // b
-    ""1""	) repeat tag
-    matchKey `" ++ [28040; 24687; 31867; 22411]%N ++ runes_of_ascii "` ,  @tag(
-    4294967296)
-@lengthOf(string_
-    ) falsey
-//
+: Logon
+    , [ 65535
 // " ++ [27880; 37322]%N ++ runes_of_ascii "
-i64_
-    , @tag( 0123456789 ) As
-u `two words` , @leftPad ( '0' ) options1{ uint8 zchar // c
+// `tick` ""quote"" 'q'
+] : len , }
+    ,repeat
+    lengthOf  metadata,@calculatedFrom(""" ++ [233]%N ++ runes_of_ascii "t" ++ [233]%N ++ runes_of_ascii """ ) repeat zchar[65535 ] As
+`doc` , char[// trailing space 
+7 ] float // @lengthOf(
+@calculatedFrom(
+    //
+    """" )
+    , float32 a1`it's`, @tag(
+3	) char[]
+BodyLength// @lengthOf(
+`line1
+line2` , match int as asx{[""" ++ [28040; 24687]%N ++ runes_of_ascii """
+, 0 ] :
+x_y_z , 1 :	Packet , ""{,}""  : falsey,255
+    : charz , [
+    ""{,}"" , 0123456789
+] : uint8x , } ,
+crc @calculatedFrom(
+    ""\" ++ [233]%N ++ runes_of_ascii """
+    // " ++ [128512]%N ++ runes_of_ascii " emoji
+    )`crlf
+line`
+    ,	match packetx
+as Pad { ""packet""://
+BodyLength,} , @lengthOf( BodyLength) @tag(
+// packet A { u8 x, }
+//x
+00
+)@lengthOf( As)match charz  as len {[//x
+""x y""]:_x //x
+""it's"": i64_ , 0123456789: metadata
+// packet A { u8 x, }
+//x
+""" ++ [128512]%N ++ runes_of_ascii """ : trueish, 1: Logon
 , }
-    , @leftPad	( ) repeat uint32
-    // a // b
-    asx ,	metadata { // c
-char[ 0 ] len @lengthOf(T ) , }	, zchar[ 3 ]uint8x @lengthOf( trueish // `tick` ""quote"" 'q'
-) `" ++ [233]%N ++ runes_of_ascii "` , @calculatedFrom(  ""CRC32""
+    , } //	t")).
+Eval vm_compute in ("<<<M159>>>" ++ check (runes_of_ascii "MetaData MetaDataX
+    { i8i8 roots
+,	zchar[	65535
+    ]rootA
+`// not a comment`, // a // b
+x_y_z  leftPad
+    //x
+    `u8 x,`, char[] stringy
+// c
+//x
+`it's` ,
+} // packet A { u8 x, }
+packet
+    Foo {
+string	lengthOf , i32 packetx@lengthOf( asx ) `{ , }`
+    ,
+repeat falsey`two words`, char[] roots@calculatedFrom(""" ++ [28040; 24687]%N ++ runes_of_ascii """ // " ++ [128512]%N ++ runes_of_ascii " emoji
+), //
+leftPad// @lengthOf(
+@calculatedFrom( """ ++ [28040; 24687]%N ++ runes_of_ascii """ )`" ++ [233]%N ++ runes_of_ascii "` ,
+    @tag( 42
 )
-    roots@lengthOf( x
-    ), }")).
-Eval vm_compute in ("<<<M1390>>>" ++ check (runes_of_ascii "options {
-	StringPrefixLenType = u16;
-	ArrayPrefixLenType = u16;
+zchar[
+65535 ]
+    As @lengthOf( a1
+)
+`doc`
+, } root packet charz{
+    @tag(
+    4294967296
+) string options1
+    `tab	here`
+    // @lengthOf(
+    , }packet leftPad	{ } packet metadata { //	t
+i32	BodyLength
+    @calculatedFrom(
+    ""it's"" ) `say ""hi""`,
+@rightPad //
+(	)
+    // " ++ [128512]%N ++ runes_of_ascii " emoji
+    chars//x
+{
+repeat
+    falsey	{ uint64 tag @lengthOf(
+len )
+, char[ 42]packetx @calculatedFrom(
+//x
+// a // b
+""abc"" )
+, } , Header { zchar[ 00 //x
+] charz
+@calculatedFrom( ""x y"" ) // trailing space 
+, uint8 calculatedFrom @calculatedFrom( ""\n"" // c
+) , trueish `" ++ [28040; 24687; 31867; 22411]%N ++ runes_of_ascii "` , string_ // @lengthOf(
+@calculatedFrom( ""// no comment"" ) // c
+`it's` ,} , string crc ,
+}  , // " ++ [128512]%N ++ runes_of_ascii " emoji
+@calculatedFrom( ""1"" )
+    @calculatedFrom(	""" ++ [28040; 24687]%N ++ runes_of_ascii """
+    // " ++ [27880; 37322]%N ++ runes_of_ascii "
+    ) @tag(7
+// trailing space 
+//
+) i8
+Foo
+// @lengthOf(
+// a // b
+, i8 a1
+//
+//x
+@calculatedFrom( ""{,}"" ) ``
+, repeat falsey	{
+o // c
+@calculatedFrom( ""abc"" ) `
+`  , zchar[42 ] matchKey , }	, i64 As ,
+//	t
+// `tick` ""quote"" 'q'
+repeat As  , repeat
+    int64 string_
+, }
+//	t
+")).
+Eval vm_compute in ("<<<M567>>>" ++ check (runes_of_ascii "options {
 }
+MetaData	x_y_z{
+    string_ packetx ,  metadata// packet A { u8 x, }
+o ,	char[
+3 ]charz
+// a // b
+//x
+, zchar
+charz,}
+MetaData
+    /// triple
+    T{ zchar[
+3 ] len ,u x_y_z	, u64 A ,
+} packet
+zchar  { @tag(
+    4294967296 ) @calculatedFrom( """ ++ [233]%N ++ runes_of_ascii "t" ++ [233]%N ++ runes_of_ascii """ ) @calculatedFrom( ""abc""
+) match tag as  tag
+    {
+    """"
+    :
+    stringy ,
+""" ++ [28040; 24687]%N ++ runes_of_ascii """:
+    // trailing space 
+    f32a ,4294967296 :
+    matchKey ,	0
+: msg_type // " ++ [27880; 37322]%N ++ runes_of_ascii "
+,7 :
+    //	t
+    Logon
+, 7
+//
+// @lengthOf(
+:
+trueish
+,}
+    , roots@calculatedFrom( // @lengthOf(
+""" ++ [233]%N ++ runes_of_ascii "t" ++ [233]%N ++ runes_of_ascii """), BodyLength `" ++ [233]%N ++ runes_of_ascii "` , repeat  int zchar //
+`
+` , @leftPad () body @calculatedFrom(
+    // packet A { u8 x, }
+    """ ++ [233]%N ++ runes_of_ascii "t" ++ [233]%N ++ runes_of_ascii """	),}
+    packet // a // b
+Packet { @lengthOf(
+    uint8x
+    )
+    // @lengthOf(
+    i64_
+    { u128	{
+    stringy , }
+,  }, T MetaDataX
+`u8 x,`
+    , @calculatedFrom("""" ) @lengthOf( // @lengthOf(
+x_y_z )
+    @calculatedFrom( ""1"" ) uint32 charz@calculatedFrom(""`tick`""	) `" ++ [233]%N ++ runes_of_ascii "`
+,
+    // @lengthOf(
+    string
+    u8x	@calculatedFrom( ""\" ++ [233]%N ++ runes_of_ascii """ ) `line1
+line2` //
+,@leftPad (
+    )
+string tag @lengthOf(
+f32a ) `" ++ [233]%N ++ runes_of_ascii "`,@rightPad ( ) @tag(7)  @lengthOf(
+    rootA
+)
+    // " ++ [128512]%N ++ runes_of_ascii " emoji
+    repeat T matchKey , @lengthOf( metadata) zchar[
+    10 ] _x @lengthOf( a1 // a // b
+) , @leftPad(
+) f32a o `{ , }`
+    ,
+}
+// packet A { u8 x, }
+")).
+Eval vm_compute in ("<<<M4267>>>" ++ check (runes_of_ascii "
 
-packet SampleBinary {
-    uint16 MsgType `" ++ [28040; 24687; 31867; 22411]%N ++ runes_of_ascii "`,
-    u16 BodyLenght @lengthOf(Body) `" ++ [28040; 24687; 20307; 38271; 24230]%N ++ runes_of_ascii "`,
-    match MsgType as Body {
-        1 : Logon,
-        2 : Logout,
-        3 : Heartbeat,
-        4 : RiskControlRequest,
-        5 : RiskControlResponse,
-    },
-        @calculatedFrom(""CRC32"")
-    u32 Ckecksum `" ++ [26657; 39564; 21644]%N ++ runes_of_ascii "`,
+  // @lengthOf(
+	packet
+
+BodyLength {char	T
+
+    ,
+
+    } root
+	packet	A  {  repeat  len
+`say ""hi""` ,
+repeat	Pad {
+repeat
+char[] 	 // " ++ [128512]%N ++ runes_of_ascii " emoji
+    stringy , repeat
+
+rootA
+	{ 
+uint64
+	Foo	@lengthOf( // `tick` ""quote"" 'q'
+      options1
+    )  // @lengthOf(
+    `it's`, 
+    //x
+	  /// triple
+
+zchar {  zchar[
+	42 ]Z9_
+
+,  repeat o
+	i8i8
+
+    , uint8 
+x `it's`
+, rootA
+	Foo
+
+`{ , }`
+,},
+}  , metadata
+@calculatedFrom( ""a	b""
+    )
+    ,
+}
+, @tag(
+	1	) string
+	// c
+  u 
+`doc`
+
+    //	t
+  , u
+@calculatedFrom(
+    ""it's""
+)	``
+
+    ,
+	char[
+	7 ]
+
+    packetx	@lengthOf(
+A
+)
+
+    `{ , }`
+	, 
+string
+_x`
+`
+
+,
+	float32
+
+_x, repeat
+char[
+
+42] rootA	`doc`
+
+    , }  MetaData
+	matchKey { zchar[ 0123456789
+
+] falsey
+
+``,
+
+    } packet Logon	{
+    @lengthOf(	zchar
+)
+match
+
+    leftPad
+	as	falsey
+{
+    3 :
+
+Packet	,007: 	 // `tick` ""quote"" 'q'
+
+	zchar
+1 
+:	// @lengthOf(
+    	float	,
+
+    ""it's"" : body ""CRC32"" 
+    // " ++ [128512]%N ++ runes_of_ascii " emoji
+      :body  } ,
+@calculatedFrom(
+
+""{,}""
+) zchar[ 1
+
+]
+	i8i8 
+@lengthOf(
+uint8x	)
+
+    ,
+    zchar[ 00
+
+]
+    // `tick` ""quote"" 'q'
+	a1 ,uint64
+    u
+,string Packet
+
+    @calculatedFrom( 
+""packet""
+
+) ,
+	} ")).
+Eval vm_compute in ("<<<M598>>>" ++ check (runes_of_ascii "
+packet o
+    // packet A { u8 x, }
+    { @tag(
+42 )	@tag( 7) @rightPad ( ' ' ) match i8i8 as rootA {// trailing space 
+[	""1""
+,
+1]:  crc , }
+    ,
+    i16
+    u8x/// triple
+@calculatedFrom(
+""\" ++ [233]%N ++ runes_of_ascii """ ), pack @calculatedFrom(
+""a	b"" ),repeat f32
+calculatedFrom ,zchar[ 00 ]  calculatedFrom , u8
+trueish`doc`, zchar[ 0123456789] int @calculatedFrom( ""packet"" )//x
+, } options { packetx =//
+""CRC32"" ;  } root packet matchKey {match Header as T {[ ""abc""
+,
+    """ ++ [233]%N ++ runes_of_ascii "t" ++ [233]%N ++ runes_of_ascii """]  : f32a 00	:calculatedFrom,00
+: _x } ,
+    char[]
+pack`{ , }` ,
+    u32
+BodyLength
+    ,	@leftPad
+( )
+    @lengthOf(
+o )
+    @lengthOf( MetaDataX ) rootA
+    { match int
+as Logon
+    { [ 3
+]:
+    f32a  ,} , zchar //x
+@lengthOf( a1
+)
+, }
+,// packet A { u8 x, }
+@calculatedFrom( ""{,}"" // " ++ [128512]%N ++ runes_of_ascii " emoji
+)
+    repeat BodyLength
+    { match Pad
+// @lengthOf(
+//x
+as charz {
+""x y"" :lengthOf  ,
+},repeat Foo
+{zchar[0
+    ] Header `" ++ [28040; 24687; 31867; 22411]%N ++ runes_of_ascii "` , } , char[ 7// " ++ [128512]%N ++ runes_of_ascii " emoji
+] packetx `// not a comment` , a1 @calculatedFrom(
+    ""1"" ) ,}
+,
+    @leftPad()
+zchar[ // c
+65535 ] u128 `say ""hi""` , } root// " ++ [128512]%N ++ runes_of_ascii " emoji
+packet int {	@leftPad (	'0' ) repeat char Packet
+, } 	 ")).
+Eval vm_compute in ("<<<M618>>>" ++ check (runes_of_ascii "
+options { i64_ = int16; } packet
+    // @lengthOf(
+    crc
+{ @tag(
+0123456789)
+    // a // b
+    repeat
+crc
+{ char[ 1]	As @lengthOf(//
+repeatCount) ,}, } root packet
+falsey
+{ repeat
+repeatCount	{repeat Header {
+calculatedFrom float `u8 x,` , } //
+,
+string u8x @lengthOf( zchar)
+,	char[ 255]
+    Foo , // " ++ [27880; 37322]%N ++ runes_of_ascii "
+} // `tick` ""quote"" 'q'
+,	@lengthOf( Z9_ ) packetx , /// triple
+repeat
+    // " ++ [128512]%N ++ runes_of_ascii " emoji
+    string
+BodyLength
+    , @rightPad ( ' '
+)
+crc @calculatedFrom( // c
+""\n"") , repeat options1
+{ match Z9_
+as A { 0 :
+    matchKey ,	[ 00,
+    10 ,
+    0,
+    """ ++ [233]%N ++ runes_of_ascii "t" ++ [233]%N ++ runes_of_ascii """ ]
+    : zchar ,	""1"" : trueish ,""abc"" :
+metadata ,
+    255
+    : matchKey
+    ,
+    },packetx @calculatedFrom( ""a\""b"" ) `
+` , // packet A { u8 x, }
+} , @tag(
+    0
+    )i32 A	, @calculatedFrom(  ""{,}"" ) @tag(
+    3
+    )
+    As ,
+    repeat f64 zchar`// not a comment`// a // b
+,
+}  packet rootA  {  @leftPad
+(	'0')
+trueish stringy`{ , }` , @calculatedFrom( ""{,}"" ) @tag( 3 )  u64	Pad@calculatedFrom( ""a	b"" ),uint16 _x @lengthOf(int) ``
+,
+    }MetaData
+    int{ }
+")).
+Eval vm_compute in ("<<<M4217>>>" ++ check (runes_of_ascii "options {
+    StringPrefixLenType = u64;
+    ArrayPrefixLenType = u16;
+    FixedStringPadChar = ' ';
 }
 
 packet Logon {
-     @leftPad('0')
-    char[10] UserName `" ++ [29992; 25143; 21517]%N ++ runes_of_ascii "`,
-    string Password `" ++ [23494; 30721]%N ++ runes_of_ascii "`,
-    uint64 ClientId `" ++ [23458; 25143; 31471]%N ++ runes_of_ascii "ID`,
-    u16 HeartbeatInterval `" ++ [24515; 36339; 38388; 38548]%N ++ runes_of_ascii "`,
+    i32 msgKind,
+    repeat InOrderid65 {
+        u8 pad0,
+    },
+    i8 tag7,
+    @leftPad(' ')
+    char[12] x,
 }
 
-packet Logout {
-      @rightPad('0')
-    char[10] UserName `" ++ [29992; 25143; 21517]%N ++ runes_of_ascii "`,
-    uint64 ClientId `" ++ [23458; 25143; 31471]%N ++ runes_of_ascii "ID`,
+packet Leg {
+    char[] f1,
+    repeat char[5] Px,
+    InQty34 {
+        repeat char[6] Qty,
+        char[7] seqNo,
+        string count,
+    },
+    Logon,
 }
 
-packet Heartbeat {
+packet Party {
+    @leftPad('0')
+    char[10] OrderId,
+    string Tail,
 }
 
-packet RiskControlRequest {
-    string UniqueOrderId `" ++ [21807; 19968; 35746; 21333; 21495]%N ++ runes_of_ascii "`,
-    char[16] ClOrdID `" ++ [23458; 25143; 35746; 21333; 21495]%N ++ runes_of_ascii "`,
-    char[3] MarketID `" ++ [24066; 22330]%N ++ runes_of_ascii "id`,
-    char[12] SecurityID `" ++ [35777; 21048; 20195; 30721]%N ++ runes_of_ascii "`,
-    char Side `" ++ [20080; 21334; 26041; 21521]%N ++ runes_of_ascii "`,
-    char OrderType `" ++ [35746; 21333; 31867; 22411]%N ++ runes_of_ascii "`,
-    u64 Price `" ++ [20215; 26684]%N ++ runes_of_ascii "`,
-    u32 Qty `" ++ [25968; 37327]%N ++ runes_of_ascii "`,
-    repeat string ExtraInfo `" ++ [38468; 21152; 20449; 24687]%N ++ runes_of_ascii "`,
-    repeat SubOrder {
-    		char[16] ClOrdID `" ++ [23376; 35746; 21333; 21495]%N ++ runes_of_ascii "`,
-    		u64 Price `" ++ [23376; 35746; 21333; 20215; 26684]%N ++ runes_of_ascii "`,
-    		u32 Qty `" ++ [23376; 35746; 21333; 25968; 37327]%N ++ runes_of_ascii "`,
-    	},
+packet Fill {
+    zchar[5] venue,
+    zchar[3] clOrdID,
+    InRef95 {
+        InLastpx25 {
+            u8 pad0,
+        },
+        float64 OrderId,
+        i32 f1,
+        float32 x,
+        char[] seqNo,
+    },
+    repeat string seqNo,
 }
 
-packet RiskControlResponse {
-    string UniqueOrderId `" ++ [21807; 19968; 35746; 21333; 21495]%N ++ runes_of_ascii "`,
-    i32 Status `" ++ [29366; 24577]%N ++ runes_of_ascii "`,
-    string Msg `" ++ [32467; 26524; 20449; 24687]%N ++ runes_of_ascii "`,
-    repeat Detail,
-}
-
-packet Detail {
-    string RuleName `" ++ [35268; 21017; 21517; 31216]%N ++ runes_of_ascii "`,
-    u16 Code `" ++ [21407; 22240; 20195; 30721]%N ++ runes_of_ascii "`,
+root packet Heartbeat {
+    repeat Leg,
+    u32 seqNo,
+    u16 tag7,
+    u32 Flags @lengthOf(Body),
+    match tag7 as Body {
+        [195, 75] : Party,
+        171 : Fill,
+        78 : Logon,
+        142 : Leg,
+    },
+    u32 Note @calculatedFrom(""CR\
+    C32""),
 }")).
-Eval vm_compute in ("<<<M905>>>" ++ check (runes_of_ascii "  options	{
-    i64_ =
-    007; asx= ' '
-;/// triple
-}MetaData	tag { float32 uint8x , } packet  len { @tag( 7
-) repeat uint8x {
-    match zchar as	As { [ 00
-,""" ++ [28040; 24687]%N ++ runes_of_ascii """
-, 00 ,
-    0123456789 , 0 , 3 ,
-""\n""] :
-    // " ++ [128512]%N ++ runes_of_ascii " emoji
-    uint8x ,
-},} , u8x @lengthOf(
-    falsey ),
-    @calculatedFrom( // a // b
-""x y""
-) // `tick` ""quote"" 'q'
-int16 A `{ , }`
-    ,	lengthOf { o
-//x
-// " ++ [128512]%N ++ runes_of_ascii " emoji
-@lengthOf( repeatCount
-    ) ,
-uint16 // packet A { u8 x, }
-i8i8 @calculatedFrom( """ ++ [28040; 24687]%N ++ runes_of_ascii """ ) ,
-    char[ 42  ]
-repeatCount , }
-    ,@calculatedFrom(""{,}""
-)//
-repeat
-    BodyLength
-    ,
-char[]
-    lengthOf/// triple
-@calculatedFrom(""{,}""	)
-// `tick` ""quote"" 'q'
-// packet A { u8 x, }
-`
-`	, @tag(  00 )
-    repeat	u128
-`a\` , } options {
-}packet lengthOf { match MetaDataX as pack
-{[
-    ""\" ++ [233]%N ++ runes_of_ascii """ ] :	Packet // `tick` ""quote"" 'q'
-, 42 :
-lengthOf , ""// no comment"" : i64_ // @lengthOf(
-,
-    [ """ ++ [128512]%N ++ runes_of_ascii """
-    ,
-255
-    , ""abc""
-    , ""{,}"", ""{,}"" ,
-    1 ]
-    :Pad [ 3 // c
-, 3 , 255
-] : BodyLength	, }
-//	t
-// a // b
-, repeatCount	asx ,falsey ,zchar[ 0123456789 ]a1 @calculatedFrom( // " ++ [128512]%N ++ runes_of_ascii " emoji
-""it's""
-    ) `// not a comment`
-, @leftPad
-    // " ++ [27880; 37322]%N ++ runes_of_ascii "
-    ( '\x00' )f32a ,rootA@lengthOf( Pad ) ,
-    match As as int { 0: calculatedFrom ,}
-    ,
-    }
-
-")).
-Eval vm_compute in ("<<<M557>>>" ++ check (runes_of_ascii "packet falsey
-{ repeat
-    zchar[ 0  ]
-    x_y_z `it's`, repeat char[] MetaDataX
-`u8 x,` ,
-@rightPad
+Eval vm_compute in ("<<<M407>>>" ++ check (runes_of_ascii "// a // b
+packet// a // b
+o
+{ body
 // trailing space 
-// trailing space 
-( )
-    match i8i8 as
-    charz{ [ 4294967296, 00 ]: crc
-, } ,repeat
-    string u8x `` ,
-Pad , @lengthOf(// c
-u128 )  @tag( 65535 )
-//	t
-// " ++ [128512]%N ++ runes_of_ascii " emoji
-tag body
-    // c
-    , } packet As  {
-    @calculatedFrom( ""// no comment""
-) repeat uint64
-msg_type
-    //	t
-    `two words`
-, @tag(007 )
-    @calculatedFrom(
-""`tick`""//x
-)@rightPad (	'\x00' //
-) int32	repeatCount, repeat	repeatCount	Pad
-, x
-    MetaDataX
-    `a\`	,char[	1 ] uint8x `u8 x,` , @calculatedFrom(
-    """" ) @calculatedFrom( ""// no comment"" )@tag(3) repeat i64// trailing space 
-trueish
-/// triple
 // `tick` ""quote"" 'q'
-, @lengthOf( MetaDataX
-    )
-Z9_, }  MetaData Logon
-    /// triple
-    {  i8i8 matchKey , u64
-i8i8
-, // trailing space 
-options1 zchar
-    // " ++ [128512]%N ++ runes_of_ascii " emoji
-    `" ++ [28040; 24687; 31867; 22411]%N ++ runes_of_ascii "` ,}
-//
-/// triple
-root	packet matchKey
-    /// triple
-    { T matchKey //	t
-, repeat	uint64
-    // packet A { u8 x, }
-    crc
-`" ++ [28040; 24687; 31867; 22411]%N ++ runes_of_ascii "`	, repeat
-    zchar[ 0123456789 ]	i8i8 ,string len//	t
-, } MetaData x_y_z
-/// triple
-// a // b
-{
-    i8i8 i64_
-, }
-
-")).
-Eval vm_compute in ("<<<M4402>>>" ++ check (runes_of_ascii "
-packet
-
-    Header
-{  trueish
-	@calculatedFrom( 
-""a	b""
-) ,	Header @calculatedFrom(	""a\\"" //
-    	),	//	t
-  @calculatedFrom(""a\\"" 
-) /// triple
-	i16	body	@lengthOf(
-f32a
-    ), 	 // packet A { u8 x, }
-		match // packet A { u8 x, }
-stringy
-as	_x {  ""`tick`"" 
-	// trailing space 
-  	//
-  :  string_
-,
-42
-
-    :
-
-u8x
-
-    , 
-""\n"": repeatCount ,""a\\"" :  options1	,[
-    4294967296
-	,""{,}""
-        /// triple
-  //x
-  ,
-
-4294967296	,
-
-    """ ++ [28040; 24687]%N ++ runes_of_ascii """
-, 
-3  //	t
-    , ""abc""	] :
-
-//	t
-  u8x 
-, }  ,
-    zchar[0123456789 ]
-	MetaDataX 
-,
-@calculatedFrom(""x y"" 	 //	t
-  	)
-	@lengthOf(A)
-    zchar[ //x
-00 ] 
-a1 ,  match  
-  // " ++ [128512]%N ++ runes_of_ascii " emoji
-	// `tick` ""quote"" 'q'
-
-options1
-as
-    calculatedFrom // packet A { u8 x, }
-		{  [""// no comment""
-// " ++ [27880; 37322]%N ++ runes_of_ascii "
+{ repeat string Z9_ ,
+    match roots as A
+{ [""" ++ [28040; 24687]%N ++ runes_of_ascii """,0
+,00
     ,
-""abc""	,  65535	,""CRC32"" ,	0	,	""CRC32""
-    ] :
-uint8x
-	,	""// no comment"" : 
-        // " ++ [128512]%N ++ runes_of_ascii " emoji
-		// trailing space 
-		chars
-
-    ,  [  """ ++ [233]%N ++ runes_of_ascii "t" ++ [233]%N ++ runes_of_ascii """
-	,
-
-    ""a	b""
-]
-    : pack 
-,10
-    :
-
-tag
-	, },
-@tag(	42
-
-)
-    repeat
-	    // trailing space 
-  len , @lengthOf( u 
-)  char[]	f32a 
-,	// packet A { u8 x, }
-	}
-")).
-Eval vm_compute in ("<<<M3792>>>" ++ check (runes_of_ascii "MetaData Packet {
-    stringy body,
-    x_y_z matchKey,
-    zchar[007] MetaDataX,
-    u16 u128 `u8 x,`,
-    stringy i64_,
-    char[] Z9_ `two words`,
-}
-
-MetaData body {
-    float32 Header,
-}
-
-options {
-    trueish = false;
-    x_y_z = 7
-    Packet = false
-    i8i8 = zchar[255]
-    tag = char[];
-}
-
-packet crc {
-    repeat char[0] x,
-    repeat float64 packetx,
-    match As as len {
-        [255] : Z9_,
-        // " ++ [27880; 37322]%N ++ runes_of_ascii "
-        ""{,}"" : MetaDataX,
-        [00, 255, ""a	b""] : Pad,
-        3 : body,
-    },
-    u128 @calculatedFrom(""CRC32""),// `tick` ""quote"" 'q'
-    @tag(10)
-    metadata {
-        repeat trueish x `line1
-                line2`,
-        u @calculatedFrom(""it's""),
-        match trueish as _x {
-            42 : o,
-            [""CRC32""] : rootA,
-        },
-    },
-    tag {
-        Z9_ {
-            zchar[3] stringy `tab	here`,
-        },
-    },
-    matchKey u8x,
-    repeat int64 metadata `{ , }`,
-    @leftPad('\x00')
-    T int,
-    @calculatedFrom(""abc"")
-    zchar[4294967296] charz,// " ++ [128512]%N ++ runes_of_ascii " emoji
-}")).
-Eval vm_compute in ("<<<M4508>>>" ++ check (runes_of_ascii "packet i64_ {
-    @lengthOf(charz)
-    zchar[00] charz `
-        `,
-    @rightPad('0')
-    @calculatedFrom(""`tick`"")
-    i16 charz,
-    repeat Pad {
-        uint8x MetaDataX,
-        int {
-            repeat uint64 u8x,// packet A { u8 x, }
-            repeat uint8x {
-                // a // b
-                repeat Z9_ x_y_z,
-                match x_y_z as _x {
-                    007 : crc,
-                    [00, 0, 1, 007, 4294967296] : u128,
-                },
-                char[42] float,
-            },
-        },
-        char[] x,
-        repeat zchar {
-            match Logon as rootA {
-                0 : chars,
-                [42] : repeatCount,
-                """ ++ [233]%N ++ runes_of_ascii "t" ++ [233]%N ++ runes_of_ascii """ : BodyLength,
-                ""x y"" : Z9_,
-                [
-                    4294967296, 42, 3, 255, 00,
-                    10, 42, ""x y""
-                ] : falsey,
-            },
-        },
-    },
-}// a // b
-
-packet options1 {
-    // c
-    len @lengthOf(T),
-}")).
-Eval vm_compute in ("<<<M544>>>" ++ check (runes_of_ascii "packet MetaDataX { @tag( 65535 )
-    match a1
-    as
-float
-{
-007 : Header } ,
-repeat char[65535
-    // " ++ [128512]%N ++ runes_of_ascii " emoji
-    ]pack , @lengthOf(Logon ) zchar[ 65535]metadata , char calculatedFrom , match roots as stringy
-{	""packet""
-: BodyLength// " ++ [128512]%N ++ runes_of_ascii " emoji
-,
-    [	""// no comment"" ] :tag , 0123456789 // " ++ [27880; 37322]%N ++ runes_of_ascii "
+0 ,	00 ,
+65535 ]
 :
-a1,	0 : roots ,  [
-""abc""	] :Header ,
-} ,
-repeat MetaDataX
-{ match Foo as lengthOf
-{
-    // a // b
-    ""CRC32""  :// " ++ [128512]%N ++ runes_of_ascii " emoji
-trueish }
-,
-match // @lengthOf(
-roots as metadata {	0 : body, } , u64	A ,
-    char[
-7]
-    Z9_,
-    //x
-    }
-    , Foo
-    { zchar[  10
-]roots @lengthOf( u8x// packet A { u8 x, }
-) `tab	here` // c
-,// trailing space 
-string_ crc ,u8x@lengthOf(	u128  )
-, }  ,
-@lengthOf(
-i8i8
-    )
-    // trailing space 
-    @calculatedFrom( ""abc""	) char[] // packet A { u8 x, }
-crc , @leftPad
-( ' ') @lengthOf(
-    // a // b
-    trueish // c
-) @lengthOf(  msg_type ) i8i8 asx	,
-    }")).
-Eval vm_compute in ("<<<M653>>>" ++ check (runes_of_ascii "
-packet
-    f32a { // c
-string len  @lengthOf( As ) // " ++ [128512]%N ++ runes_of_ascii " emoji
-`line1
-line2` , zchar[ 1//x
-] zchar `{ , }` , tag
-    //
-    @lengthOf( rootA) , // c
-string x_y_z `" ++ [28040; 24687; 31867; 22411]%N ++ runes_of_ascii "`, }packet crc {
-BodyLength
-@lengthOf(
-msg_type
-    ) , } MetaData packetx  {	} root packet lengthOf {repeat uint32	zchar , // " ++ [27880; 37322]%N ++ runes_of_ascii "
-T {
-msg_type // a // b
-{ f32a  { charz
-    stringy ``
-    , uint16
-u128
-, i16
-    BodyLength
-    @lengthOf(
-    x ) ,int8 //
-metadata `tab	here`, }
 // c
-// trailing space 
-,
-repeat Packet
-`doc` , // packet A { u8 x, }
-int8 A @calculatedFrom(
-""CRC32"" )
-    ,
-    }, Pad asx ,
-char[
-0 ]
-    repeatCount ,
-} ,
-    u16
-Z9_ `" ++ [233]%N ++ runes_of_ascii "` , @rightPad
-(
-    // @lengthOf(
-    '\x00' )
-    repeat Header
-//	t
-// " ++ [27880; 37322]%N ++ runes_of_ascii "
-`line1
-line2` ,@calculatedFrom(
-    ""\" ++ [233]%N ++ runes_of_ascii """ )
-char[]rootA @calculatedFrom( ""// no comment"" )`doc`
-, // a // b
-calculatedFrom `a\`,
-} packet As	{  }")).
-Eval vm_compute in ("<<<M746>>>" ++ check (runes_of_ascii "packet o
-    {
-    /// triple
-    }
-packet Pad // a // b
-{ repeat  f32
-metadata	`two words`,repeat
-    charz	{  i32 i64_@calculatedFrom(""\" ++ [233]%N ++ runes_of_ascii """ ) `u8 x,` ,
-repeat uint8x
-tag , uint16// " ++ [128512]%N ++ runes_of_ascii " emoji
-Packet	@calculatedFrom( ""a	b"" ) `u8 x,` ,
-    } ,
-}  packet
-metadata {@leftPad	( )
-repeat  f32 i64_  ,
-    // `tick` ""quote"" 'q'
-    f32a @calculatedFrom( ""x y""
-) , repeat zchar[007 ]  body // a // b
-,@rightPad ( '\x00' )	string MetaDataX  @lengthOf( options1)
-,  @tag( 3 )
-    match  _x as
-    lengthOf {  ""`tick`"": //	t
-body}
-/// triple
-// c
-,@calculatedFrom(""`tick`""
-)i64 options1@calculatedFrom( ""abc"") `" ++ [28040; 24687; 31867; 22411]%N ++ runes_of_ascii "` , i8 As // a // b
-, rootA
-@lengthOf( lengthOf) //x
-,
-// " ++ [27880; 37322]%N ++ runes_of_ascii "
-// " ++ [27880; 37322]%N ++ runes_of_ascii "
-}  MetaData body { int16 // " ++ [128512]%N ++ runes_of_ascii " emoji
-len `line1
-line2`
-,  uint16 stringy , uint64 falsey
-`{ , }`, len len ,
-} // " ++ [128512]%N ++ runes_of_ascii " emoji")).
-Eval vm_compute in ("<<<M4213>>>" ++ check (runes_of_ascii "/// triple
-packet matchKey {
-    // `tick` ""quote"" 'q'
-    repeatCount `line1
-        line2`,
-    @calculatedFrom(""1"")
-    u128 @calculatedFrom(""\" ++ [233]%N ++ runes_of_ascii """),// @lengthOf(
-    @calculatedFrom(""abc"")
-    repeat int uint8x,
-    Packet @lengthOf(trueish),
-    @tag(3)
-    rootA @lengthOf(asx) `it's`,
-    repeat tag body,
-    @lengthOf(_x)
-    @calculatedFrom(""1"")
-    @leftPad('0')
-    i8 i64_ @calculatedFrom(""a\""b""),
-}
-
-packet x_y_z {
-    @tag(7)
-    match Z9_ as i64_ {
-        """" : roots,
-        ""`tick`"" : T,
-        007 : zchar,
-        [
-            4294967296, 7, 4294967296, 4294967296, 10,
-            255, ""\" ++ [233]%N ++ runes_of_ascii """
-        ] : pack,
-        1 : asx,
-        ""CRC32"" : x_y_z,
-    },// a // b
-}
-
-options {
-}
-
-root packet packetx {
-    i8i8 @lengthOf(u128),
-}")).
-Eval vm_compute in ("<<<M1289>>>" ++ check (runes_of_ascii "packet string_
-    {A { // trailing space 
-zchar[1 ] // a // b
-len	,match leftPad	as metadata {
-    // " ++ [27880; 37322]%N ++ runes_of_ascii "
-    [
-    4294967296 ,
-    4294967296 , 00 , 1, ""{,}"" ,
-    007 /// triple
-, 7 ]
-: chars
-    /// triple
-    , 0
-: i64_
-    ,}, }
-    //	t
-    ,	uint8 charz`" ++ [233]%N ++ runes_of_ascii "`
-    // trailing space 
-    ,
-charz msg_type , @rightPad	(
-    ' '
-    )
-    @calculatedFrom( ""it's"" ) repeat a1
-`it's`
-, //x
-repeat Logon
-{ int o , metadata , zchar[
-    0] msg_type@calculatedFrom( """" ) , pack
-,} ,	@calculatedFrom(""it's"" )  char[
-    00 ] int `u8 x,`
-, i32
-charz
-`{ , }`,
-repeat f64 As `" ++ [28040; 24687; 31867; 22411]%N ++ runes_of_ascii "`
-/// triple
-// @lengthOf(
-,} MetaData //
-metadata
-{ string
-    falsey , }
-    packet o	{	float64 roots @lengthOf( body ) ,
-    //
-    }")).
-Eval vm_compute in ("<<<M663>>>" ++ check (runes_of_ascii "
-root packet
-options1 {float@calculatedFrom(
-""a	b"" ) , @leftPad
-    // `tick` ""quote"" 'q'
-    ( ) match
-// @lengthOf(
-// `tick` ""quote"" 'q'
-lengthOf as  f32a{  ""1""	: f32a , ""{,}"" : falsey , // a // b
-} ,
-// a // b
-// packet A { u8 x, }
-} packet
-T{ @tag( 7) @lengthOf(
-f32a
-) @rightPad
-(
-) char[] msg_type @calculatedFrom( ""\" ++ [233]%N ++ runes_of_ascii """) `" ++ [28040; 24687; 31867; 22411]%N ++ runes_of_ascii "`,	options1 u128
-    //x
-    `// not a comment` ,
-    // packet A { u8 x, }
-    @rightPad (  ' '	) char[
-    1 ] metadata
-    // `tick` ""quote"" 'q'
-    @calculatedFrom(""" ++ [128512]%N ++ runes_of_ascii """ )`doc`
-    , } packet u8x{ roots
-@lengthOf(
-f32a
-) , @calculatedFrom( ""a\""b"") @tag( 00 )
-@leftPad ( '\x00'
-) MetaDataX { int @calculatedFrom( ""`tick`""
-) `
-` ,}// " ++ [27880; 37322]%N ++ runes_of_ascii "
-, }
-")).
-Eval vm_compute in ("<<<M1042>>>" ++ check (runes_of_ascii "packet Foo { @leftPad
-( '\x00'  )
-    chars {repeat char[]
-tag	`// not a comment` ,repeat u8  T
-,repeat Foo
-BodyLength`it's`,
-zchar
-    { u repeatCount  `" ++ [233]%N ++ runes_of_ascii "` , Header //	t
-, repeat i64 u128 , repeat  charz{ char[] //x
-leftPad,
-    zchar[ // a // b
-42 ] // a // b
-lengthOf
-`{ , }`
-    , } ,} , }
-    , @calculatedFrom( ""it's"" )
-Pad
-{i16 f32a ,
-repeat char[ 10] x `{ , }` ,
-    match metadata
-as
-o {	""" ++ [128512]%N ++ runes_of_ascii """ : metadata , 1
-: rootA , } , } ,
-packetx `{ , }`, } packet
-falsey { }options {MetaDataX // " ++ [128512]%N ++ runes_of_ascii " emoji
-= zchar[ 10
-    //x
-    ] ;  string_
-    = '0'	;
-i8i8=
-// `tick` ""quote"" 'q'
 //x
-true _x  = char[ //	t
-0123456789  ]
-    }
-// a // b
-")).
-Eval vm_compute in ("<<<M906>>>" ++ check (runes_of_ascii "packet // trailing space 
-A
-{ @tag( 0
-)
-    string
-i8i8`a\`
-    // packet A { u8 x, }
-    , float64
-    x @lengthOf( Header // " ++ [128512]%N ++ runes_of_ascii " emoji
-) `tab	here` // @lengthOf(
-,zchar[
-    3 ]	lengthOf ,
-// packet A { u8 x, }
-// " ++ [27880; 37322]%N ++ runes_of_ascii "
-o msg_type `{ , }` ,
-    //x
-    Logon // c
-@lengthOf( i64_)
-,@leftPad (
-' ' ) repeat As
-// packet A { u8 x, }
-// @lengthOf(
-,  match
-    len as leftPad
-    {""x y"" :
-    repeatCount , """ ++ [28040; 24687]%N ++ runes_of_ascii """ :
-packetx , ""x y"" : u8x ,
-4294967296:
-Header ""a	b"": roots,
-} , @calculatedFrom(
-// " ++ [128512]%N ++ runes_of_ascii " emoji
-/// triple
-""{,}"" )
-    // trailing space 
-    uint32// packet A { u8 x, }
-i64_ `line1
-line2`, } // " ++ [128512]%N ++ runes_of_ascii " emoji")).
-Eval vm_compute in ("<<<M1113>>>" ++ check (runes_of_ascii "packet  metadata { f64 float
-    //
-    `crlf
-line` , i32 asx @calculatedFrom(
-""`tick`"" ) ,
-/// triple
-// c
-A ,}
-root packet zchar  {
-// trailing space 
-// packet A { u8 x, }
-match matchKey
-    as
-    roots//x
-{
-""a\""b"" :	zchar ,""`tick`""
-:
-    int
-    ,""\n"" : packetx ,
-0// " ++ [27880; 37322]%N ++ runes_of_ascii "
-: Z9_ , }, int32 a1
-, @tag(42 ) // " ++ [128512]%N ++ runes_of_ascii " emoji
-@rightPad ('0') @tag( 65535 )char[ 00 ] calculatedFrom
-,packetx@lengthOf( options1 )
-    , }
-root
-packet body{ match
-    f32a as msg_type {[ 42 ]: matchKey // a // b
-, 3 :
-rootA
-    // @lengthOf(
-    , [
+T } , }
+    , @calculatedFrom( ""\" ++ [233]%N ++ runes_of_ascii """  ) repeat asx{uint8  x_y_z
+,
+}
+,  f64  Header
+`line1
+line2` ,}options {
+    f32a	=
     // c
-    00]
-    : packetx 10 : falsey	, }	,}options {
-}
-")).
-Eval vm_compute in ("<<<M3934>>>" ++ check (runes_of_ascii "options {
-    u8x = ""it's""
-    x_y_z = 42
-    o = true;
-    MetaDataX = '0';
-}
-
-MetaData calculatedFrom {
-    i64 trueish,
-    u16 stringy `two words`,
-    u8x repeatCount,
-    int8 matchKey,
-}
-
-packet MetaDataX {
-    @calculatedFrom(""\" ++ [233]%N ++ runes_of_ascii """)
-    uint8x @lengthOf(uint8x),
-    //	t
-    repeat zchar[007] Foo `" ++ [233]%N ++ runes_of_ascii "`,
-    @lengthOf(metadata)
-    @tag(1)
-    match metadata as BodyLength {
-        00 : tag,
-        ""a	b"" : Packet,
-        [""abc""] : pack,
-    },
-}
-
-root packet packetx {
-    @leftPad('\x00')
-    f32a @lengthOf(options1),
-}
-
-packet MetaDataX {
-}")).
-Eval vm_compute in ("<<<M178>>>" ++ check (runes_of_ascii "
-packet
-// packet A { u8 x, }
-// " ++ [27880; 37322]%N ++ runes_of_ascii "
-matchKey {} packet
-    string_ { matchKey @lengthOf(
-asx)
-    ,@rightPad ( ' '
-) metadata
-,
-// a // b
-// @lengthOf(
-o //
-chars ,  uint16 tag `u8 x,` ,
-repeat  float32 Logon  `two words` , /// triple
-matchKey	@calculatedFrom( ""a	b""
-)`doc`
-    ,
-repeat packetx
-a1 ,} MetaData Packet //
-{
-char[]
-    pack, string  zchar ,zchar[
-//	t
-// trailing space 
-1 ] x_y_z, int64
-    charz
-`say ""hi""`, u32
-lengthOf
-    `doc`
-,}
-options
-    { a1
-= int16 ; crc =' ';tag = char[ 42]
-leftPad
-    = true ; }")).
-Eval vm_compute in ("<<<M1181>>>" ++ check (runes_of_ascii "  packet  uint8x // a // b
-{
-    //x
-    } MetaData A
-    /// triple
-    {float32 options1 , roots
-    uint8x
-    , trueish asx , string options1 `" ++ [28040; 24687; 31867; 22411]%N ++ runes_of_ascii "`
-    , i32 int
-,
-    u// " ++ [128512]%N ++ runes_of_ascii " emoji
-As `doc` ,
-} packet Header {
-    char[]
-A
-, // a // b
-repeat metadata{match
-    /// triple
-    leftPad as Foo { ""a\""b"" : msg_type
-    // `tick` ""quote"" 'q'
-    }
-    , } , char[] trueish  ,
-matchKey  {
-char[ 4294967296//	t
-] roots	@calculatedFrom( ""x y"" ) , }, i8// " ++ [128512]%N ++ runes_of_ascii " emoji
-MetaDataX@calculatedFrom(  ""packet""
-), }
-")).
-Eval vm_compute in ("<<<M489>>>" ++ check (runes_of_ascii "//
-packet
-o {
-repeat
-chars//	t
-{ falsey leftPad `two words` , zchar[ 4294967296 ] packetx
-    @lengthOf( i64_ ) `
-` ,
-repeat msg_type
-    { zchar[ 007
-]	matchKey , i16 falsey@calculatedFrom( ""packet"" ) `crlf
-line` , }  ,
-} , @tag( 00 ) zchar[
-    007
-    ]
-    uint8x `u8 x,` //x
-, char metadata , //x
-match rootA
-// a // b
-// `tick` ""quote"" 'q'
-as
-zchar
-{	10 :
-    float ,42:
-a1 ,
-    } , int  @lengthOf(Packet
-) , charz{i8i8 /// triple
-rootA//
-`doc` , }	,  } options { }
-")).
-Eval vm_compute in ("<<<M4338>>>" ++ check (runes_of_ascii "options {
-}
-
-options {
-}
-
-options {
-}
-
-packet options1 {
-    /// triple
-    // @lengthOf(
-    repeat stringy repeatCount,
-    int64 rootA,
-    @lengthOf(T)
-    // trailing space 
-    // @lengthOf(
-    chars Foo `line1
-        line2`,
-    i64_,
-    repeat tag roots,
-    @calculatedFrom(""CRC32"")
-    @calculatedFrom(""" ++ [233]%N ++ runes_of_ascii "t" ++ [233]%N ++ runes_of_ascii """)
-    a1 @calculatedFrom(""1"") `two words`,
-}
-
-options {
-    Logon = false
-    uint8x = ""x y""
-    Header = ""a	b"";
-    calculatedFrom = true
-}")).
-Eval vm_compute in ("<<<M736>>>" ++ check (runes_of_ascii "packet metadata { match trueish
-as body
-    { 0123456789
-    :A, 1
-    :
-    rootA [//
-""packet"" ,65535 , 65535 , ""a	b""
-    ,42 , ""x y"" , 1// @lengthOf(
-, 0 ]	:
-// packet A { u8 x, }
-// " ++ [128512]%N ++ runes_of_ascii " emoji
-u128 ,//	t
-10 :
-As ,
-    0123456789 :stringy ,
-""x y""	: BodyLength, } ,
-i64_ options1`a\` , } packet
-trueish {
-    /// triple
-    }packet BodyLength	{ i32 charz ,
-@calculatedFrom(// @lengthOf(
-""" ++ [28040; 24687]%N ++ runes_of_ascii """ )	repeat float32 asx `doc` , } // trailing space ")).
-Eval vm_compute in ("<<<M1233>>>" ++ check (runes_of_ascii "// " ++ [128512]%N ++ runes_of_ascii " emoji
-packet u8x {	char[] Z9_ , @leftPad
-    (
-'0'
-)
-    //x
-    u64 int@lengthOf(
-//x
-//	t
-A ) `crlf
-line`	,	repeat
-u8x
-`" ++ [28040; 24687; 31867; 22411]%N ++ runes_of_ascii "`, int64 leftPad @lengthOf(
-T), i8i8 i64_  , // " ++ [128512]%N ++ runes_of_ascii " emoji
-repeat msg_type ,@rightPad
-    // a // b
-    (	'\x00'  ) @lengthOf( zchar )
-matchKey ,
-    // packet A { u8 x, }
-    } MetaData u { } MetaData x_y_z {int16
-rootA,char[]
-o `it's`
-// packet A { u8 x, }
-// @lengthOf(
-, }
-options {}
-")).
-Eval vm_compute in ("<<<M4058>>>" ++ check (runes_of_ascii "  //	t
-	packet Header
-	{
-
-@tag(0
+    7  ; packetx = 0123456789 u8x = """"
+    ;
+    } // a // b
+root packet stringy { Foo @calculatedFrom(  ""abc""
     )
-
-    float64 
-    //
-u128,
-@tag( 65535  )  pack
-`line1
-line2` ,
-@tag(  1
-    // @lengthOf(
-) trueish {
-	    // " ++ [128512]%N ++ runes_of_ascii " emoji
-// c
-    repeat
-u
-`it's`	,
-
-}, @lengthOf(
-	repeatCount
-
-)
-@calculatedFrom(""it's""	)
-@lengthOf(a1)string_ @lengthOf(string_)
-    ,
-    }
-    MetaData
-    leftPad
-    { u8	pack
-	,  // `tick` ""quote"" 'q'
-	}
-    packet msg_type  {Z9_
-    ,
-} ")).
-Eval vm_compute in ("<<<M4395>>>" ++ check (runes_of_ascii "packet tag {
-    match asx as u128 {
-        ""1"" : T,
-        0123456789 : rootA,
-        7 : i8i8,
-        65535 : chars,
-    },
-    zchar[7] options1,
-    zchar[255] asx,
-    @leftPad('0')
-    stringy `" ++ [28040; 24687; 31867; 22411]%N ++ runes_of_ascii "`,
-    u64 zchar @calculatedFrom(""\n""),
-    len @calculatedFrom(""// no comment"") `" ++ [28040; 24687; 31867; 22411]%N ++ runes_of_ascii "`,
-    @leftPad('0')
-    tag @lengthOf(calculatedFrom),
-    repeat uint64 metadata `a\`,
-}")).
-Eval vm_compute in ("<<<M230>>>" ++ check (runes_of_ascii "packet x { lengthOf rootA , @rightPad
-( '0' )
-i8 asx @lengthOf( calculatedFrom // a // b
-),
-@lengthOf( Pad ) repeat //x
-int16 trueish // c
-``// " ++ [27880; 37322]%N ++ runes_of_ascii "
-, @calculatedFrom(
-""" ++ [128512]%N ++ runes_of_ascii """) @tag(0
-)
-@lengthOf( // a // b
-matchKey ) string MetaDataX`doc`
-,
-i16 // `tick` ""quote"" 'q'
-options1 @lengthOf(
-    // " ++ [27880; 37322]%N ++ runes_of_ascii "
-    u8x
-    // " ++ [128512]%N ++ runes_of_ascii " emoji
-    ) `a\` ,
-    u128
-u128`line1
-line2`,}")).
-Eval vm_compute in ("<<<M825>>>" ++ check (runes_of_ascii "// `tick` ""quote"" 'q'
-MetaData	BodyLength {
-char[ 00
-//x
-// " ++ [27880; 37322]%N ++ runes_of_ascii "
-]
-A
-`a\`	, zchar[// trailing space 
-0123456789 ] T // packet A { u8 x, }
-`tab	here` ,As asx `" ++ [28040; 24687; 31867; 22411]%N ++ runes_of_ascii "` ,
-char[]falsey ,  o // " ++ [128512]%N ++ runes_of_ascii " emoji
-Foo `tab	here` , } root packet
-i64_ {
-    repeat uint64 o,
-@calculatedFrom(
-""abc"" ) uint8x ,
-@tag( 4294967296
-    ) char[ 255]
-    repeatCount `` ,	}")).
-Eval vm_compute in ("<<<M44>>>" ++ check (runes_of_ascii "packet rootA { @rightPad( ' ') repeat
-    Z9_ roots
-``,	zchar
-tag `two words` , @rightPad ( ' '
-    )
-len {
-// trailing space 
-//x
-u128
-`doc` ,u8x
-    ,  char[ 0123456789 // a // b
-]calculatedFrom  `" ++ [28040; 24687; 31867; 22411]%N ++ runes_of_ascii "`,msg_type
-@lengthOf(
-falsey)`u8 x,` , } ,
-@calculatedFrom( """"	)	f64 charz
-@lengthOf(msg_type) `it's`// trailing space 
-,
-    }
-")).
-Eval vm_compute in ("<<<M38>>>" ++ check (runes_of_ascii "  packet
-    i64_
-    {
-    Z9_ @lengthOf(
-charz)	`doc`
-    , Pad {  body @lengthOf( string_ ) //
-`say ""hi""`	, uint64 metadata@lengthOf(Logon )`say ""hi""` ,
-    zchar[ 3
-    ] f32a`{ , }` ,repeat uint8	leftPad
-/// triple
-/// triple
-,  }
-,char[] _x @lengthOf( As)
     `
-` ,  char[ 65535
-    ]matchKey  `// not a comment`
-,}")).
-Eval vm_compute in ("<<<M1983>>>" ++ check (runes_of_ascii "MetaData
-    u { }  options {
-// c
-// @lengthOf(
-float = int8 ;rootA =false ; As =	int16 // `tick` ""quote"" 'q'
-repeatCount
-    // trailing space 
-    =
-    int16
-; u8x =
-    //	t
-    '\x00' ; string options	{
-    repeatCount
-= 0
-u128
-    //
-    = false ; i64_
-// trailing space 
-// `tick` ""quote"" 'q'
-= '0' ; //	t
-}
-")).
-Eval vm_compute in ("<<<M1946>>>" ++ check (runes_of_ascii "MetaData
-    u { }  options {
-// c
-// @lengthOf(
-float = int8 ;rootA =false ; As =	int16 // `tick` ""quote"" 'q'
-repeatCount
-    // trailing space 
-    = =
-    int16
-; u8x =
-    //	t
-    '\x00' ; } options	{
-    repeatCount
-= 0
-u128
-    //
-    = false ; i64_
-// trailing space 
-// `tick` ""quote"" 'q'
-= '0' ; //	t
-}
-")).
-Eval vm_compute in ("<<<M2064>>>" ++ check (runes_of_ascii "MetaData
-    u { }  options {
-// c
-// @lengthOf(
-float = int8 ;rootA =false ; As =	int16 // `tick` ""quote"" 'q'
-repeatCount
-    // trailing space 
-    =
-    int16
-; u8x =
-    //	t
-    '\x00' ; } options	{
-    repeatCount
-= 0
-u128
-    //
-   $ = false ; i64_
-// trailing space 
-// `tick` ""quote"" 'q'
-= '0' ; //	t
-}
-")).
-Eval vm_compute in ("<<<M1972>>>" ++ check (runes_of_ascii "MetaData
-    u { }  options {
-// c
-// @lengthOf(
-float = int8 ;rootA =false ; As =	int16 // `tick` ""quote"" 'q'
-repeatCount
-    // trailing space 
-    =
-    int16
-; u8x =
-    //	t
-    ; '\x00' } options	{
-    repeatCount
-= 0
-u128
-    //
-    = false ; i64_
-// trailing space 
-// `tick` ""quote"" 'q'
-= '0' ; //	t
-}
-")).
-Eval vm_compute in ("<<<M1955>>>" ++ check (runes_of_ascii "MetaData
-    u { }  options {
-// c
-// @lengthOf(
-float = int8 ;rootA =false ; As =	int16 // `tick` ""quote"" 'q'
-repeatCount
-    // trailing space 
-    =
-    int16
- u8x =
-    //	t
-    '\x00' ; } options	{
-    repeatCount
-= 0
-u128
-    //
-    = false ; i64_
-// trailing space 
-// `tick` ""quote"" 'q'
-= '0' ; //	t
-}
-")).
-Eval vm_compute in ("<<<M1915>>>" ++ check (runes_of_ascii "MetaData
-    u { }  options {
-// c
-// @lengthOf(
-float = int8 ;rootA = ; As =	int16 // `tick` ""quote"" 'q'
-repeatCount
-    // trailing space 
-    =
-    int16
-; u8x =
-    //	t
-    '\x00' ; } options	{
-    repeatCount
-= 0
-u128
-    //
-    = false ; i64_
-// trailing space 
-// `tick` ""quote"" 'q'
-= '0' ; //	t
-}
-")).
-Eval vm_compute in ("<<<M4>>>" ++ check (runes_of_ascii "root packet pack  { match Pad as// a // b
-f32a
-    {	[
-/// triple
-//	t
-"""" ]: leftPad
-, [""" ++ [233]%N ++ runes_of_ascii "t" ++ [233]%N ++ runes_of_ascii """,007 ] : //	t
-f32a //x
-, 65535 :  body
+`, @lengthOf( pack) repeat
+    u8x{ f32
+    zchar ,
+    //x
+    uint32 Z9_`tab	here`	,	leftPad {
+msg_type @lengthOf(BodyLength )
+,
+repeat int8 T, string_ uint8x, match trueish as A{
+[
+""a	b"" ,
+""a\\""
+] : // packet A { u8 x, }
+trueish
+, [ ""a\\"",42,
+""it's""
     ,
-    // @lengthOf(
-    10:u128,42	: // trailing space 
-pack, } ,}options{// " ++ [27880; 37322]%N ++ runes_of_ascii "
-o=
-    // c
-    f64 ; x_y_z //
-= /// triple
-u32 len =
-    42;
-falsey
-    = true	;}")).
-Eval vm_compute in ("<<<M3265>>>" ++ check (runes_of_ascii "// top
-MetaData
-    // c0
-float
-    // c1
-{
-    // c2
-float64
-    // c3
-charz
-    // c4
-`
-`
-    // c5
+00, """ ++ [128512]%N ++ runes_of_ascii """] :  msg_type , ""a\\""
+    : Z9_
+/// triple
+/// triple
+, ""it's"" : // `tick` ""quote"" 'q'
+T , ""\" ++ [233]%N ++ runes_of_ascii """ : As [4294967296, ""x y""
+, 3 //
+, ""abc"", // packet A { u8 x, }
+""1""
+, """ ++ [233]%N ++ runes_of_ascii "t" ++ [233]%N ++ runes_of_ascii """
+    , 42	, ""\n""
+    ]
+: matchKey
 ,
-    // c6
-}
-    // c7
-root
-    // c8
-packet
-    // c9
-chars
-    // c10
-{
-    // c11
-@rightPad
-    // c12
-(
-    // c13
-'0'
-    // c14
-)
-    // c15
-Foo
-    // c16
-,
-    // c17
-}
-    // c18
+}, }
+, }
+, }
 ")).
-Eval vm_compute in ("<<<M3779>>>" ++ check (runes_of_ascii "
-options{ calculatedFrom=
-    false  ; } packet 
-i64_ { body ,
-	//	t
-    	//x
-    }	/// triple
+Eval vm_compute in ("<<<M3651>>>" ++ check (runes_of_ascii "options
 
-options{
+{
+	LittleEndian=
+false 
+;	FixedStringPadFromLeft
 
-    float 
+=  false
+;
+FixedStringPadChar 
+= ' '
+	;
+    }
+    packet 
+Fill
+
+    {
+uint16	Qty ,uint64 clOrdID
+,repeat
+i64
+Flags
+
+    ,
+}
+packet	Ack {
+	zchar[
+7
+
+]clOrdID,
+
+    u64
+
+    lastPx ,
+    char[]	Note
+, repeat Fill,
+int32 count
+, } packet
+
+Quote{
+
+    u8
+
+venue
+
+,
+    InRef40{
+char[] Qty
+
+,
+
+},zchar[  5 ] 
+Flags
+	, @rightPad  (	'\x00'  ) 
+char[12  ] msgKind
+,
+}  packet Logout {InSym79 {
+int32 Qty	,
+
+    Fill
+
+, char[ 3
+	]  x 
+,repeat
+InNote29 
+{i16 price
+
+, 
+Ack 
+,	f64
+	x
+,
+zchar[ 8 ]	count
+
+    ,
+}
+
+    ,	}
+,
+} root
+packet
+    Logon
+{ 
+zchar[
+1
+] sym
+	,	u32
+count
+
+    ,
+	u16 tag7 
+@lengthOf(
+    Body
+)
+,
+match count
+
+    as
+Body
+{
+    [
+    122 ,152]
+    :  Ack	,118
+
+: Logout
+
+,
+    61
+	:
+Quote
+	,  161
+
+    : Fill , }
+
+,u32
+
+Acct@calculatedFrom(
+    ""CRC32""
+
+)  ,
+
+} ")).
+Eval vm_compute in ("<<<M795>>>" ++ check (runes_of_ascii "packet
+    roots { @calculatedFrom(
+    ""1"")
+repeat char f32a , zchar[
+// " ++ [128512]%N ++ runes_of_ascii " emoji
+// `tick` ""quote"" 'q'
+42
+/// triple
+// " ++ [128512]%N ++ runes_of_ascii " emoji
+] options1
+`
+` ,
+/// triple
+// " ++ [27880; 37322]%N ++ runes_of_ascii "
+@calculatedFrom( """ ++ [233]%N ++ runes_of_ascii "t" ++ [233]%N ++ runes_of_ascii """ ) float64 uint8x `say ""hi""`  , packetx
+    //	t
+    @lengthOf( BodyLength	)  `a\`  ,	@calculatedFrom( ""\" ++ [233]%N ++ runes_of_ascii """ ) chars u8x	`{ , }`
+, match _x as len {
+    42 : crc, 4294967296 // packet A { u8 x, }
+: uint8x ,  10 : BodyLength,
+    } //
+,@tag(0 )
+    // @lengthOf(
+    char[ 7] // trailing space 
+metadata,
+    /// triple
+    @tag( 4294967296
+)
+    match BodyLength
+as  chars { ""`tick`"":
+x_y_z
+    , 42
+    //x
+    : x_y_z ,0123456789: x },
+char[
+7 ] rootA`" ++ [28040; 24687; 31867; 22411]%N ++ runes_of_ascii "` ,}
+    packet string_ { @calculatedFrom(
+    """ ++ [128512]%N ++ runes_of_ascii """)@lengthOf( f32a
+    // packet A { u8 x, }
+    ) @lengthOf( Pad ) repeat
+    //	t
+    pack i64_
+`line1
+line2`,	}
+")).
+Eval vm_compute in ("<<<M4384>>>" ++ check (runes_of_ascii "packet x {
+    u16 msg_type @lengthOf(BodyLength),// trailing space 
+    @calculatedFrom(""" ++ [28040; 24687]%N ++ runes_of_ascii """)
+    repeat Header {
+        char[0123456789] repeatCount,
+        zchar[7] i64_ @calculatedFrom(""" ++ [28040; 24687]%N ++ runes_of_ascii """),
+        repeat T zchar `tab	here`,
+    },
+    uint8 body `doc`,
+    repeat char[] i8i8,
+    uint32 f32a @calculatedFrom(""`tick`""),
+    @rightPad(' ')
+    match rootA as matchKey {
+        42 : lengthOf,
+        // `tick` ""quote"" 'q'
+        ""// no comment"" : Z9_,
+        [""a\\"", 1] : len,
+        10 : trueish,
+    },
+    f64 Logon @lengthOf(T) `crlf
+    line`,
+    match float as i8i8 {
+        ""\n"" : i64_,
+    },
+    @lengthOf(u8x)
+    // trailing space 
+    @leftPad('\x00')
+    char[007] body `it's`,
+    @leftPad('0')
+    string crc @calculatedFrom(""a\\"") `" ++ [28040; 24687; 31867; 22411]%N ++ runes_of_ascii "`,
+}")).
+Eval vm_compute in ("<<<M4319>>>" ++ check (runes_of_ascii "
+MetaData	As
+	{ }packet
+float	{	// @lengthOf(
+    options1
+
+Pad  `// not a comment` ,
+uint16 
+As
+`line1
+line2`
+
+,
+	float32
+    stringy 
+@calculatedFrom(
+	""`tick`""
+)
+`" ++ [233]%N ++ runes_of_ascii "`
+
+    ,
+
+    repeat 
+Packet { zchar[  3
+    ]
+	T 
+@calculatedFrom( ""x y""
+
+    )
+	,char[  7 
+]
+asx
+@lengthOf(tag 
+)
+, 
+
+    //
+  int64
+    charz  `u8 x,` ,} ,
+
+    uint32
+
+len	,
+	@tag(
+	0123456789
+    ) Foo
+
+    packetx
+    `// not a comment` 
+,char[]  trueish@lengthOf(rootA
+) ,	@leftPad  (	//
+	'0' ) 
+repeat
+    x_y_z `{ , }`  , i64 u128
+
+    ,}
+packet
+
+msg_type 	 //x
+
+	{char[]
+
+i8i8	`doc`  //	t
+	, string 
+trueish
+
+@calculatedFrom( 
+""""
+    )
+, 
+char[ 7
+
+    ]	/// triple
+		string_ 	 // packet A { u8 x, }
+    `say ""hi""` 
+/// triple
+//
+
+,  } ")).
+Eval vm_compute in ("<<<M3711>>>" ++ check (runes_of_ascii "
+root 
+packet	o
+    {  a1 a1	, 
+char[ 3
+    ]	i8i8
+    `
+`
+    ,  @calculatedFrom(
+""a\""b""
+)	// packet A { u8 x, }
+repeat  /// triple
+  Pad  ,} 
+
+    // `tick` ""quote"" 'q'
+    // `tick` ""quote"" 'q'
+	packet 
+tag {
+i8i8  @calculatedFrom( ""x y""
+
+)
+`it's`  ,
+
+@lengthOf(x_y_z)
+    @calculatedFrom( 
+    //
+		//	t
+	""a\""b""
+
+)u
+
+{ 
+match	a1
+    as  Logon{
+""\n""
+    : Pad ,
+
+    3  : body
+
+    , """" :  // `tick` ""quote"" 'q'
+Logon
+
+    ,	""\n""	:	T
+    ,  ""`tick`"":	tag ,[
+
+    """ ++ [233]%N ++ runes_of_ascii "t" ++ [233]%N ++ runes_of_ascii """/// triple
+,	7	,""a\""b""
+
+    , 0123456789
+
+    , ""abc""	,
+
+    """ ++ [28040; 24687]%N ++ runes_of_ascii """ , 0 ] :Z9_
+
+    }	, char[ 00] 	 //
+string_ @lengthOf(
+asx )
+,char[ 1 
+]falsey , 
+} ,	match
+
+crc 
+as
+
+lengthOf {  4294967296
+: a1  } ,}
+")).
+Eval vm_compute in ("<<<M4342>>>" ++ check (runes_of_ascii "root packet A {
+    @tag(42)
+    match Logon as rootA {
+        0123456789 : int,
+    },
+    repeat char[] uint8x `crlf
+        line`,
+    int {
+        // `tick` ""quote"" 'q'
+        //
+        repeat f64 Packet,
+        uint8x @calculatedFrom(""1""),
+        string x `it's`,
+    },
+    @lengthOf(Foo)
+    @calculatedFrom(""a	b"")
+    @lengthOf(body)
+    metadata {
+        match pack as matchKey {
+            ""x y"" : falsey,
+            ""it's"" : Header,
+        },
+        body {
+            char[] len,/// triple
+        },
+    },
+    char[0123456789] T @calculatedFrom(""`tick`""),
+}
+
+options {
+    len = ' '
+}
+
+MetaData As {
+    f64 As,
+    char[0123456789] x,
+}")).
+Eval vm_compute in ("<<<M3977>>>" ++ check (runes_of_ascii "MetaData
+pack{ } // trailing space 
+    MetaData u { zchar[
+
+    7
+    ]
+lengthOf  `say ""hi""`,
+
+} 
+packet  // trailing space 
+
+	metadata {
+	@leftPad	()
+stringy chars,
+
+    repeat  int{
+uint8
+A ,
+    zchar[
+4294967296
+
+    ]Packet
+
+@lengthOf(
+x
+    )  `
+`
+	,
+repeat
+    crc
+	zchar 
+,
+} 
+	    // " ++ [128512]%N ++ runes_of_ascii " emoji
+
+//x
+    ,
+repeat options1{ u16 u
+,
+	string_ { string_
+MetaDataX 
+,
+    repeat 
+char[ 0123456789 ]
+uint8x , repeat
+    uint32 T,
+
+// packet A { u8 x, }
+
+//x
+	} ,
+    uint16
+    packetx ,
+    }
+    // packet A { u8 x, }
+  // `tick` ""quote"" 'q'
+    , @leftPad (
+
+    ' '
+    )rootA
+
+`crlf
+line`,	} 
+    // " ++ [27880; 37322]%N)).
+Eval vm_compute in ("<<<M3584>>>" ++ check (runes_of_ascii "// top
+packet // c0a
+  // c0b
+A { // c2
+u8 // c3a
+  // c3b
+a , } // c6a
+  // c6b
+packet // c7a
+  // c7b
+B // c8
+{ // c9a
+  // c9b
+u16
+    // c10
+b // c11a
+  // c11b
+, // c12a
+  // c12b
+}
+    // c13
+root // c14a
+  // c14b
+packet // c15
+P
+    // c16
+{
+    // c17
+u8 // c18
+K // c19
+, // c20a
+  // c20b
+match
+    // c21
+K
+    // c22
+as // c23a
+  // c23b
+M // c24
+{ // c25
+[
+    // c26
+1 // c27a
+  // c27b
+, // c28
+2
+    // c29
+]
+    // c30
+: A // c32a
+  // c32b
+, // c33a
+  // c33b
+3 :
+    // c35
+B , // c37a
+  // c37b
+7 // c38a
+  // c38b
+: // c39a
+  // c39b
+A
+    // c40
+, } , } // c44a
+  // c44b
+")).
+Eval vm_compute in ("<<<M1274>>>" ++ check (runes_of_ascii "packet charz // @lengthOf(
+{ // packet A { u8 x, }
+repeat float64 chars , }root
+packet
+    //x
+    repeatCount  { @rightPad( '\x00'	) Header
+    // a // b
+    i64_
+    ,
+} MetaData calculatedFrom { u8x
+Z9_
+`a\`	,  } packet string_ { @tag(0123456789 ) repeat o `` , //	t
+len	@lengthOf( roots
+    ) ,@calculatedFrom( ""1""
+)	@calculatedFrom(""it's""
+)
+    uint64 Packet@lengthOf( T )
+    , body ,
+    match matchKey as MetaDataX{[
+    // packet A { u8 x, }
+    7 , 42	]	:
+    stringy
+, } , } root
+packet A
+// a // b
+// a // b
+{ @calculatedFrom(""a\""b"" )	int8 packetx ,	}
+")).
+Eval vm_compute in ("<<<M1017>>>" ++ check (runes_of_ascii "packet
+f32a {	roots
+{chars  calculatedFrom,
+u16 Header`" ++ [233]%N ++ runes_of_ascii "`
+/// triple
+// packet A { u8 x, }
+,char[] repeatCount , //	t
+} , @calculatedFrom( ""x y"" )
+    i32 crc
+@calculatedFrom(
+""x y"" ),repeat uint64 lengthOf
+    ,repeat char[
+    65535]  u
+, @lengthOf(
+tag)
+// trailing space 
+//
+@lengthOf( pack) @calculatedFrom(  ""packet"" ) // packet A { u8 x, }
+match A as
+f32a
+    {
+// trailing space 
+// c
+""`tick`""
+:
+    i8i8 ,
+    }
+, @tag(
+0123456789
+    ) repeat repeatCount
+crc  ,
+    repeat	u32  options1
+`a\` , }  options { matchKey ='0' ;	}")).
+Eval vm_compute in ("<<<M4157>>>" ++ check (runes_of_ascii "
+options
+{ StringPrefixLenType =
+u8
+
+;
+
+ArrayPrefixLenType
+= 
+u32 ; } packet Quote
+{
+    u32
+
+    Ref, InNote74	{ u8 
+pad0 
+,  }  ,
+}packet  Ack
+{repeat
+
+    string
+OrderId 
+,
+    }
+    packet
+Logout
+    {zchar[
+7 
+]venue , 
+char[ 12
+
+    ]
+Px
+,
+
+    string
+
+    count
+	,  char[]
+Tail
+    ,	char[]	Qty
+	,
+	Quote
+, }
+root
+packet Trade
+	{
+	zchar[
+
+    2 ]
+
+    price ,
+    u32
+	x
+
+    ,
+u32
+
+lastPx
+	@lengthOf(Body)	,
+
+    match x
+	as
+
+Body {148 :
+    Ack,
+
+171 : 
+Quote
+
+, 15	:  Logout,} ,	}
+")).
+Eval vm_compute in ("<<<M4241>>>" ++ check (runes_of_ascii "root packet i8i8 {
+    BodyLength `" ++ [28040; 24687; 31867; 22411]%N ++ runes_of_ascii "`,
+    Header,
+    int16 len @lengthOf(msg_type) `
+    `,
+    @leftPad(' ')
+    @rightPad()
+    // trailing space 
+    @calculatedFrom(""x y"")
+    repeatCount @calculatedFrom(""packet"") `crlf
+    line`,
+    @lengthOf(falsey)
+    roots @lengthOf(metadata) `line1
+    line2`,
+    i8 i64_,
+    @tag(4294967296)
+    @tag(3)
+    repeat zchar[1] lengthOf,
+    @lengthOf(Logon)
+    repeat asx {
+        stringy float `line1
+        line2`,
+        Pad,
+    },
+}")).
+Eval vm_compute in ("<<<M3846>>>" ++ check (runes_of_ascii "options {
+    As = u16
+    body = char[]
+}
+
+MetaData options1 {
+    //
+    zchar[1] T `{ , }`,
+    stringy BodyLength,
+    uint16 matchKey,//	t
+    char[255] _x,
+    o o `a\`,
+}
+
+packet chars {
+    f32a {
+        repeat a1,
+        repeat charz x_y_z,
+        asx,
+        rootA len `crlf
+        line`,
+    },// " ++ [27880; 37322]%N ++ runes_of_ascii "
+}
+
+root packet Header {
+    string float `
+    `,//	t
+}
+
+options {
+    T = false
+    options1 = ""packet""
+    matchKey = zchar[00];
+    string_ = false;
+}")).
+Eval vm_compute in ("<<<M4604>>>" ++ check (runes_of_ascii "
+packet  chars { }root
+
+    packet  chars
+    { zchar[ 	 // @lengthOf(
+	00  ]
+lengthOf  `" ++ [28040; 24687; 31867; 22411]%N ++ runes_of_ascii "` 
+,  }
+root
+	packet
+	tag {@rightPad('\x00')
+zchar[ 3]
+	Foo
+    @lengthOf( pack ) ,zchar[ 10
+]
+	tag
+, repeat
+
+    uint32
+int, 
+@rightPad
+
+( '\x00')
+	@lengthOf(
+f32a) @rightPad
+    //
+
+//x
+    ( ' ') Packet  int ,
+	match 
+
+//	t
+      len// " ++ [27880; 37322]%N ++ runes_of_ascii "
+      as
+i8i8 { 10  : chars  ,
+},
+@calculatedFrom(""x y"")
+	Z9_
+	@calculatedFrom(""it's""
+)
+
+    ,}//	t
+")).
+Eval vm_compute in ("<<<M3634>>>" ++ check (runes_of_ascii "
+options
+
+{ LittleEndian=  true
+;
+
+StringPrefixLenType=  u16 ;
+
+ArrayPrefixLenType
+    =
+u64 
+;	} packet	Fill {  }
+
+packet  Logon 
+{	repeat  char[
+	3
+] Tail ,
+
+    zchar[6 ]venue, 
+repeat string  Side2
+    ,  }	root 
+packet
+Cancel{char[] Flags , char[] OrderId
+,
+
+    zchar[
+6
+]	msgKind , Fill , char[]
+    Acct ,  u8	f1 ,  match f1
+    as	Body
+    {  188:
+    Fill,5 
+:Logon,
+}, 
+u32
+clOrdID@calculatedFrom(
+
+""CRC32"" ) ,
+
+}")).
+Eval vm_compute in ("<<<M4415>>>" ++ check (runes_of_ascii "packet options1 {
+    repeat zchar[7] i8i8,
+    _x {
+        zchar[65535] i8i8 @lengthOf(uint8x),
+        match x_y_z as lengthOf {
+            //x
+            [
+                00, 1, 10, ""\" ++ [233]%N ++ runes_of_ascii """, 42,
+                00
+            ] : Pad,
+            [4294967296] : asx,
+            0123456789 : x_y_z,
+        },
+        zchar[0] float,
+    },
+    int16 T @lengthOf(charz) ``,
+}
+
+MetaData pack {
+    int64 chars,
+}")).
+Eval vm_compute in ("<<<M4380>>>" ++ check (runes_of_ascii "  packet Packet
+{
+@tag(	4294967296) charz { 
+repeat char[
+    0123456789 ] 
+BodyLength
+, repeat 
+trueish stringy
+    ,
+}
+	, }
+options 
+{
+	body
+=  char  ;
+
+leftPad  = 
+uint16 
+//	t
+;
+stringy =
+	true ;
+	packetx 
 =
 
-    true;  // @lengthOf(
-  charz
-= // a // b
-    	char[ 
-65535
+true 
+        // `tick` ""quote"" 'q'
+	//
 
-    ] ; u = /// triple
+	float
 
-true ;
+=
 
-    metadata
+    char[ 255 ]
 
-    =""\" ++ [233]%N ++ runes_of_ascii """ 
-matchKey  = '\x00'}// " ++ [27880; 37322]%N ++ runes_of_ascii "
-")).
-Eval vm_compute in ("<<<M292>>>" ++ check (runes_of_ascii "options { asx = ""{,}"" } packet len{repeat	float
-    As, char[] Packet ,
-i8 body @lengthOf( T
-) //
+    }
+	    // `tick` ""quote"" 'q'
+/// triple
+
+  root	packet
+
+len 
+{ @leftPad
+
+( '0'
+	)uint64	a1
+
 ,
-}// @lengthOf(
-packet
-    Pad {uint32
-u8x // packet A { u8 x, }
-, /// triple
-@tag( 4294967296 ) @tag(65535)
-@rightPad(
-    )rootA
-    trueish `{ , }`
-    ,
-    } 	 ")).
-Eval vm_compute in ("<<<M1618>>>" ++ check (runes_of_ascii "packet
-//	t
-// trailing space 
-_x {
-// packet A { u8 x, }
-// c
-char[
-3
-    ] u8x @lengthOf(
-u8x ) , @calculatedFrom(""" ++ [128512]%N ++ runes_of_ascii """ // @lengthOf(
-)
-i16	Foo
-@lengthOf(	string_
-    )`doc`	, repeat	i64 metadata , @lengthOf( string_ string_
-) i8 // c
-u  `line1
-line2`	,
+
 }
+
 ")).
-Eval vm_compute in ("<<<M1575>>>" ++ check (runes_of_ascii "packet
-//	t
-// trailing space 
-_x {
-// packet A { u8 x, }
-// c
-char[
-3
-    ] u8x @lengthOf(
-u8x ) , @calculatedFrom(""" ++ [128512]%N ++ runes_of_ascii """ // @lengthOf(
-)
-i16	Foo
-@lengthOf(	@lengthOf(
-    )`doc`	, repeat	i64 metadata , @lengthOf( string_
-) i8 // c
-u  `line1
-line2`	,
-}
-")).
-Eval vm_compute in ("<<<M1658>>>" ++ check (runes_of_ascii "packet
-|//	t
-// trailing space 
-_x {
-// packet A { u8 x, }
-// c
-char[
-3
-    ] u8x @lengthOf(
-u8x ) , @calculatedFrom(""" ++ [128512]%N ++ runes_of_ascii """ // @lengthOf(
-)
-i16	Foo
-@lengthOf(	string_
-    )`doc`	, repeat	i64 metadata , @lengthOf( string_
-) i8 // c
-u  `line1
-line2`	,
-}
-")).
-Eval vm_compute in ("<<<M1574>>>" ++ check (runes_of_ascii "packet
-//	t
-// trailing space 
-_x {
-// packet A { u8 x, }
-// c
-char[
-3
-    ] u8x @lengthOf(
-u8x ) , @calculatedFrom(""" ++ [128512]%N ++ runes_of_ascii """ // @lengthOf(
-)
-i16	Foo
-@lengthOf(	)
-    string_`doc`	, repeat	i64 metadata , @lengthOf( string_
-) i8 // c
-u  `line1
-line2`	,
-}
-")).
-Eval vm_compute in ("<<<M1607>>>" ++ check (runes_of_ascii "packet
-//	t
-// trailing space 
-_x {
-// packet A { u8 x, }
-// c
-char[
-3
-    ] u8x @lengthOf(
-u8x ) , @calculatedFrom(""" ++ [128512]%N ++ runes_of_ascii """ // @lengthOf(
-)
-i16	Foo
-@lengthOf(	string_
-    )`doc`	, repeat	i64 metadata  @lengthOf( string_
-) i8 // c
-u  `line1
-line2`	,
-}
-")).
-Eval vm_compute in ("<<<M3924>>>" ++ check (runes_of_ascii "root packet msg_type {
-    // @lengthOf(
-    //	t
-    string repeatCount `crlf
+Eval vm_compute in ("<<<M3810>>>" ++ check (runes_of_ascii "MetaData MetaDataX {
+    i64_ leftPad,
+    zchar[7] u8x `" ++ [28040; 24687; 31867; 22411]%N ++ runes_of_ascii "`,
+    zchar[00] crc `crlf
     line`,
-    i8 Foo @lengthOf(MetaDataX),
-    @tag(10)
-    @calculatedFrom(""abc"")
-    @lengthOf(falsey)
-    repeat stringy pack `doc`,
+    char[255] zchar,
+    u32 x `tab	here`,
+    i64_ falsey `it's`,
 }
 
-options {
-    As = 65535
-}")).
-Eval vm_compute in ("<<<M4118>>>" ++ check (runes_of_ascii "MetaData u {
+MetaData A {
+    char[7] calculatedFrom `two words`,
+    asx asx `tab	here`,
+    float64 trueish,
+    zchar[42] f32a `tab	here`,
+    char[] u128,
 }
 
-options {
-    // c
-    // @lengthOf(
-    float = int8;
-    rootA = false;
-    As = int16// `tick` ""quote"" 'q'
-    repeatCount = int16
-    u8x = '\x00';
-}
-
-options {
-    repeatCount = 0
-    u128 = false;
-    i64_ = '0';//	t
-}")).
-Eval vm_compute in ("<<<M301>>>" ++ check (runes_of_ascii "  MetaData // c
-crc
-{ i64 matchKey,
-    _x msg_type//
-, zchar zchar
+packet uint8x {
+    @tag(1)
+    repeat char[] Packet,
+}// c")).
+Eval vm_compute in ("<<<M309>>>" ++ check (runes_of_ascii "options // " ++ [27880; 37322]%N ++ runes_of_ascii "
+{charz
+    =
+/// triple
+/// triple
+int64 chars // trailing space 
+=
+65535
+// " ++ [27880; 37322]%N ++ runes_of_ascii "
+// a // b
+zchar =
+'\x00'MetaDataX// a // b
+=	0123456789
+roots
+// trailing space 
+// " ++ [27880; 37322]%N ++ runes_of_ascii "
+= """" } options {crc // c
+=""" ++ [28040; 24687]%N ++ runes_of_ascii """
+    ;
+    } MetaData	float {
+    zchar[ 42
+// `tick` ""quote"" 'q'
+//
+]
+leftPad
+    `line1
+line2` ,
+i64_ u,float32 // packet A { u8 x, }
+A`" ++ [28040; 24687; 31867; 22411]%N ++ runes_of_ascii "` , }")).
+Eval vm_compute in ("<<<M1300>>>" ++ check (runes_of_ascii "packet
+Foo	{ @lengthOf(options1
+    // trailing space 
+    )  zchar[ 255
+] matchKey , string i64_// " ++ [128512]%N ++ runes_of_ascii " emoji
+,  @lengthOf( len ) char
+Z9_ // " ++ [27880; 37322]%N ++ runes_of_ascii "
+`" ++ [233]%N ++ runes_of_ascii "`
+,
+// `tick` ""quote"" 'q'
+// a // b
+char[7 ]metadata @calculatedFrom( ""a\\"")`doc`
     ,
-    MetaDataX	matchKey
-    `a\` ,
-    u32 Header // " ++ [128512]%N ++ runes_of_ascii " emoji
-, } MetaData
-_x{
-    } root packet
-    calculatedFrom
+falsey ,@rightPad (
+'\x00'  )u64 rootA`crlf
+line`
+//x
+// " ++ [128512]%N ++ runes_of_ascii " emoji
+, @calculatedFrom( ""it's""
+    ) f64 i64_ ,}")).
+Eval vm_compute in ("<<<M829>>>" ++ check (runes_of_ascii "options {	msg_type = 007 ; //
+u8x =""`tick`""}// @lengthOf(
+packet body { match o as
+    /// triple
+    options1
+    {
+//
+//x
+""{,}"" :// trailing space 
+x_y_z 7
+:
+Foo,4294967296
+: len
+, ""// no comment""
+: i64_,	} , @lengthOf(
+matchKey
+)repeat
+u32 x_y_z `say ""hi""` , } MetaData a1 {// a // b
+options1 options1	`doc` , }
+// " ++ [128512]%N ++ runes_of_ascii " emoji
+")).
+Eval vm_compute in ("<<<M1916>>>" ++ check (runes_of_ascii "MetaData
+    u { }  options {
+// c
+// @lengthOf(
+float = int8 ;rootA =false false ; As =	int16 // `tick` ""quote"" 'q'
+repeatCount
+    // trailing space 
+    =
+    int16
+; u8x =
+    //	t
+    '\x00' ; } options	{
+    repeatCount
+= 0
+u128
+    //
+    = false ; i64_
+// trailing space 
+// `tick` ""quote"" 'q'
+= '0' ; //	t
+}
+")).
+Eval vm_compute in ("<<<M633>>>" ++ check (runes_of_ascii "root packet BodyLength {u16
+    tag @calculatedFrom(""packet""
+)// packet A { u8 x, }
+, u8 i8i8 ,
+repeat float64
+    string_`u8 x,` , } MetaData
+stringy
+    {	repeatCount
+    a1 ,
+    // " ++ [27880; 37322]%N ++ runes_of_ascii "
+    char[ 0123456789 ] u128 `doc` //	t
+,
+    u16 _x , i64
+pack
+    ,
+i64
+BodyLength `say ""hi""`, zchar[ 255
+    ]
+Z9_
+    ,}
+")).
+Eval vm_compute in ("<<<M2072>>>" ++ check (runes_of_ascii "MetaData
+    u { }  options {
+// c
+// @lengthOf(@x
+float = int8 ;rootA =false ; As =	int16 // `tick` ""quote"" 'q'
+repeatCount
+    // trailing space 
+    =
+    int16
+; u8x =
+    //	t
+    '\x00' ; } options	{
+    repeatCount
+= 0
+u128
+    //
+    = false ; i64_
+// trailing space 
+// `tick` ""quote"" 'q'
+= '0' ; //	t
+}
+")).
+Eval vm_compute in ("<<<M1922>>>" ++ check (runes_of_ascii "MetaData
+    u { }  options {
+// c
+// @lengthOf(
+float = int8 ;rootA =false As ; =	int16 // `tick` ""quote"" 'q'
+repeatCount
+    // trailing space 
+    =
+    int16
+; u8x =
+    //	t
+    '\x00' ; } options	{
+    repeatCount
+= 0
+u128
+    //
+    = false ; i64_
+// trailing space 
+// `tick` ""quote"" 'q'
+= '0' ; //	t
+}
+")).
+Eval vm_compute in ("<<<M3625>>>" ++ check (runes_of_ascii "
+options
+    {
+LittleEndian
+
+    = 
+true; StringPrefixLenType
+    =
+
+u8
+; 
+ArrayPrefixLenType
+=
+    u8 
+; }
+packet
+Ack
+
+{
+	}	root
+packet	Quote
+{
+Ack	,
+	InSym94 { repeat
+
+Ack
+, } ,
+    u16  msgKind ,
+u16 OrderId
+
+    @lengthOf(
+	Body 
+),match
+    msgKind	as
+
+    Body
+{
+	[110	, 48
+]
+:
+
+Ack
+
+,}
+,
+}")).
+Eval vm_compute in ("<<<M3670>>>" ++ check (runes_of_ascii "
+
+  options
+{ LittleEndian= true ; 
+}packet
+
+    Sub
+
+    {
+u8 
+a ,	@calculatedFrom(
+	""CRC16"") 
+u64
+    SubSum
+,
+    }
+	root packet  Frame
+
+    {u16
+    MsgType 
+,
+
+u16
+
+BodyLen
+
+    @lengthOf( 
+Body	)
+, Sub
+
+Body , 
+string	note ,
+
+    @calculatedFrom(""CRC16""
+)u64
+Checksum  ,	u8
+	tail
+
+    ,  }
+
+")).
+Eval vm_compute in ("<<<M949>>>" ++ check (runes_of_ascii "MetaData
+    T
+//x
+// trailing space 
+{ char[]	metadata, } MetaData
+    a1
+{ charz
+float , i32 i8i8`say ""hi""` ,} packet pack {MetaDataX	, f64 calculatedFrom , zchar[3 ]
+    // a // b
+    T//
+@calculatedFrom(
+    """ ++ [233]%N ++ runes_of_ascii "t" ++ [233]%N ++ runes_of_ascii """) `doc` ,A {i16 charz,char[ //
+0123456789 ]crc `" ++ [28040; 24687; 31867; 22411]%N ++ runes_of_ascii "` , char[]
+string_ , } , // a // b
+}")).
+Eval vm_compute in ("<<<M4584>>>" ++ check (runes_of_ascii "  packet	// packet A { u8 x, }
+
+As {
+    @leftPad ( '\x00'
+    // @lengthOf(
+    )	repeat 
+// " ++ [128512]%N ++ runes_of_ascii " emoji
+    //
+pack  ,
+} 
+MetaData 	 //x
+    leftPad
+{	uint8 tag
+,i16
+    BodyLength  /// triple
+
+  `{ , }`
+	,zchar[
+    1
+	]	u`say ""hi""`
+
+    , u16 charz ,
+
+    u32 packetx , rootA //
+body
+
+, }
+")).
+Eval vm_compute in ("<<<M3600>>>" ++ check (runes_of_ascii "  packet
+
+    MDSnapshotZZ
+
+{
+
+u8  a
+	,
+
+}
+	packet OrderACK
+    {
+u16 b	, 
+} 
+packet
+	HTTPServerInfo	{
+
+    string
+s ,
+
+    }
+
+root packet FIXMsg{
+u8 KType,  MDSnapshotZZ ,
+
+    repeat OrderACK,
+
+    match KType
+	as	Body{  1 :
+HTTPServerInfo
+
+,
+	2 :
+    OrderACK  ,}
+    ,}
+
+")).
+Eval vm_compute in ("<<<M92>>>" ++ check (runes_of_ascii "options
+    {
+    u8x =zchar[ 42 ] ;
+roots = """ ++ [233]%N ++ runes_of_ascii "t" ++ [233]%N ++ runes_of_ascii """	; calculatedFrom
+= '0' As =
+    ""packet"" ; } options	{falsey=  10
+    ; A=
+// c
+// packet A { u8 x, }
+'\x00' ; leftPad// c
+=	""" ++ [233]%N ++ runes_of_ascii "t" ++ [233]%N ++ runes_of_ascii """
+    ;
+    crc
+//	t
+// c
+= u16
 // `tick` ""quote"" 'q'
 // @lengthOf(
-{	}
+;As
+= 255 } /// triple")).
+Eval vm_compute in ("<<<M3606>>>" ++ check (runes_of_ascii "
+
+  packet P1 {
+	u8
+	a ,
+} packet
+	P2  {P1 ,  }packet
+    P3{ P2,
+
+P1 , }
+packet P4
+{  repeat
+
+P3,P2 ,
+    } root packet
+	P5 { P4,
+
+P3 
+, P1, 
+u8
+
+K
+
+,
+    match
+K
+
+    as
+
+    Body
+{
+
+    4
+
+    : 
+P4
+,	3 :
+    P3  ,  2 
+:
+P2
+
+    ,	1
+:P1  ,
+	} ,}
 ")).
-Eval vm_compute in ("<<<M3765>>>" ++ check (runes_of_ascii "packet  //	t
-  u8x  { @leftPad (
-
-    '0' ) // trailing space 
-	@calculatedFrom( ""1"" )
-
-    @leftPad
-
-    (
-    '\x00'
-)
-    zchar[ 3  ] zchar
-, 	 // `tick` ""quote"" 'q'
-
-	}
-    options
-
-    {  } 
-// @lengthOf(
-")).
-Eval vm_compute in ("<<<M3867>>>" ++ check (runes_of_ascii "packet Pad {
-    @leftPad()
-    @lengthOf(float)
-    @calculatedFrom(""// no comment"")
-    repeat calculatedFrom {
-        uint16 i64_ @lengthOf(msg_type),
-        BodyLength trueish,
-        _x Logon,
+Eval vm_compute in ("<<<M3924>>>" ++ check (runes_of_ascii "packet Logon {
+    match repeatCount as trueish {
+        1 : int,
+        [
+            """ ++ [28040; 24687]%N ++ runes_of_ascii """, 65535, ""{,}"", 10, 42,
+            007
+        ] : body,
+        [""CRC32"", ""x y""] : T,
+        // packet A { u8 x, }
+        [42] : a1,
+        7 : chars,
     },
-}//	t")).
-Eval vm_compute in ("<<<M818>>>" ++ check (runes_of_ascii "packet calculatedFrom{ body, } packet Packet {repeat
-    _x // a // b
-asx ,@tag(
-3 )
-    @calculatedFrom(
-""" ++ [128512]%N ++ runes_of_ascii """
+}")).
+Eval vm_compute in ("<<<M1555>>>" ++ check (runes_of_ascii "packet
+//	t
+// trailing space 
+_x {
+// packet A { u8 x, }
+// c
+char[
+3
+    ] u8x @lengthOf(
+u8x ) , @calculatedFrom(""" ++ [128512]%N ++ runes_of_ascii """ // @lengthOf(
+i16
+i16	Foo
+@lengthOf(	string_
+    )`doc`	, repeat	i64 metadata , @lengthOf( string_
+) i8 // c
+u  `line1
+line2`	,
+}
+")).
+Eval vm_compute in ("<<<M636>>>" ++ check (runes_of_ascii "packet// packet A { u8 x, }
+As { @leftPad ( '\x00'
+    // @lengthOf(
+    )
+repeat
+// " ++ [128512]%N ++ runes_of_ascii " emoji
+//
+pack,
+    } MetaData //x
+leftPad { uint8	tag ,
+i16 BodyLength /// triple
+`{ , }` , zchar[ 1	] u `say ""hi""`, u16 charz ,
+u32 packetx
+,
+rootA//
+body ,
+}")).
+Eval vm_compute in ("<<<M1619>>>" ++ check (runes_of_ascii "packet
+//	t
+// trailing space 
+_x {
+// packet A { u8 x, }
+// c
+char[
+3
+    ] u8x @lengthOf(
+u8x ) , @calculatedFrom(""" ++ [128512]%N ++ runes_of_ascii """ // @lengthOf(
 )
-    char[3 ]
-    body, f64
-    MetaDataX `u8 x,` ,
-    //x
-    @tag(0 )repeat
-    roots i8i8 ,	}")).
+i16	Foo
+@lengthOf(	string_
+    )`doc`	, repeat	i64 metadata , @lengthOf( )
+string_ i8 // c
+u  `line1
+line2`	,
+}
+")).
+Eval vm_compute in ("<<<M2029>>>" ++ check (runes_of_ascii "MetaData
+    u { }  options {
+// c
+// @lengthOf(
+float = int8 ;rootA =false ; As =	int16 // `tick` ""quote"" 'q'
+repeatCount
+    // trailing space 
+    =
+    int16
+; u8x =
+    //	t
+    '\x00' ; } options	{
+    repeatCount
+= 0
+u128
+    //
+    = false")).
+Eval vm_compute in ("<<<M1640>>>" ++ check (runes_of_ascii "packet
+//	t
+// trailing space 
+_x {
+// packet A { u8 x, }
+// c
+char[
+3
+    ] u8x @lengthOf(
+u8x ) , @calculatedFrom(""" ++ [128512]%N ++ runes_of_ascii """ // @lengthOf(
+)
+i16	Foo
+@lengthOf(	string_
+    )`doc`	, repeat	i64 metadata , @lengthOf( string_
+) i8 // c
+u  @tag(	,
+}
+")).
+Eval vm_compute in ("<<<M4336>>>" ++ check (runes_of_ascii "root packet roots {
+}// `tick` ""quote"" 'q'
+
+MetaData As {
+    string u `{ , }`,
+    zchar[3] x_y_z,
+    i32 roots,
+    u16 rootA `line1
+        line2`,
+    // `tick` ""quote"" 'q'
+    // a // b
+    i32 matchKey `doc`,
+    u _x `{ , }`,
+}")).
+Eval vm_compute in ("<<<M4196>>>" ++ check (runes_of_ascii "packet zchar {
+    // c
+}
+
+MetaData Header {
+    Z9_ pack,
+}
+
+MetaData asx {
+    //	t
+    u Header,
+    zchar[3] o,
+    As repeatCount `" ++ [28040; 24687; 31867; 22411]%N ++ runes_of_ascii "`,
+    //	t
+    //	t
+    rootA tag `u8 x,`,
+    float64 options1,
+    char[] uint8x,
+}")).
+Eval vm_compute in ("<<<M3989>>>" ++ check (runes_of_ascii "packet _x {
+    // packet A { u8 x, }
+    // c
+    char[3] u8x @lengthOf(u8x),
+    @calculatedFrom(""" ++ [128512]%N ++ runes_of_ascii """)
+    i16 Foo @lengthOf(string_) `doc`,
+    repeat metadata,
+    @lengthOf(string_)
+    i8 u `line1
+        line2`,
+}")).
+Eval vm_compute in ("<<<M4227>>>" ++ check (runes_of_ascii "
+
+  MetaData
+    u8x
+    { i64_  u128
+	`tab	here`,  char[]
+
+    asx
+    ,
+u 	 // packet A { u8 x, }
+	BodyLength	,
+
+    u64
+uint8x,
+_x  rootA	//x
+	,
+
+} MetaData  trueish
+{	float64 asx	// c
+
+,  /// triple
+		}")).
+Eval vm_compute in ("<<<M1840>>>" ++ check (runes_of_ascii "options { trueish = ""`tick`"" ; string_= """ ++ [233]%N ++ runes_of_ascii "t" ++ [233]%N ++ runes_of_ascii """
+    // c
+    } root
+    packet body { stringy @calculat'\x01'edFrom(
+""a	b"" ) `line1
+line2` , }
+packet Logon {
+    @leftPad(
+    ' ' ) //	t
+u16 string_ `u8 x,` ,
+}
+")).
 Eval vm_compute in ("<<<M1772>>>" ++ check (runes_of_ascii "options { trueish = ""`tick`"" ; string_= """ ++ [233]%N ++ runes_of_ascii "t" ++ [233]%N ++ runes_of_ascii """
     // c
     } root
@@ -2094,7 +2480,7 @@ packet Logon {
  string_ `u8 x,` ,
 }
 ")).
-Eval vm_compute in ("<<<M1681>>>" ++ check (runes_of_ascii "options {  = ""`tick`"" ; string_= """ ++ [233]%N ++ runes_of_ascii "t" ++ [233]%N ++ runes_of_ascii """
+Eval vm_compute in ("<<<M1701>>>" ++ check (runes_of_ascii "options { trueish = ""`tick`"" ; = """ ++ [233]%N ++ runes_of_ascii "t" ++ [233]%N ++ runes_of_ascii """
     // c
     } root
     packet body { stringy @calculatedFrom(
@@ -2106,89 +2492,183 @@ packet Logon {
 u16 string_ `u8 x,` ,
 }
 ")).
-Eval vm_compute in ("<<<M354>>>" ++ check (runes_of_ascii "MetaData u128 { char[]falsey ,u8  roots	, i8
-u `doc`, packetx int ,
-}// c
-packet asx
-{ }
-options	{ matchKey= ""// no comment"" Logon
-= char[]
-    u128=
-false options1 =' '
-len
-    = '\x00'  }")).
-Eval vm_compute in ("<<<M4445>>>" ++ check (runes_of_ascii "
-
-  packet
-
-    falsey { } packet
-
-    stringy	{repeatCount  //	t
-@calculatedFrom(  ""a	b""  //x
-  )
-    ,
-    @lengthOf(
-	string_)
-repeat
-    i64_
-
-metadata  `
-` /// triple
-  , 
-}
-
-")).
-Eval vm_compute in ("<<<M441>>>" ++ check (runes_of_ascii "
-options { options1 =
-1// packet A { u8 x, }
-; } options
-{ A =00}MetaData
-repeatCount {
-char[]
-u8x	, char[] u128
-, body roots
-`" ++ [28040; 24687; 31867; 22411]%N ++ runes_of_ascii "`, msg_type As  ,
-} MetaData
-string_ {
-}
-")).
-Eval vm_compute in ("<<<M1974>>>" ++ check (runes_of_ascii "MetaData
-    u { }  options {
+Eval vm_compute in ("<<<M1374>>>" ++ check (runes_of_ascii "root
+// a // b
 // c
-// @lengthOf(
-float = int8 ;rootA =false ; As =	int16 // `tick` ""quote"" 'q'
-repeatCount
-    // trailing space 
-    =
-    int16
-; u8x =")).
-Eval vm_compute in ("<<<M1224>>>" ++ check (runes_of_ascii "options //
-{} packet	tag //	t
-{ u64
-u @lengthOf(u128 ) , char[]Pad
-    // a // b
-    @lengthOf( crc) ,
-    i32 options1@lengthOf(msg_type// c
-) ,} options {
-    }")).
-Eval vm_compute in ("<<<M1016>>>" ++ check (runes_of_ascii "packet // c
-Pad
-{@calculatedFrom( ""1"" ) pack//
-leftPad `doc` ,char[ /// triple
-007 ] i8i8 @calculatedFrom( ""// no comment""  ),	} options//
+packet	i8i8 { }packet roots { // trailing space 
+f64 uint8x ,@lengthOf(
+    lengthOf // c
+) roots @calculatedFrom( // a // b
+""" ++ [128512]%N ++ runes_of_ascii """ )  `{ , }` //x
+, i32 falsey,
+    //
+    }
+")).
+Eval vm_compute in ("<<<M4295>>>" ++ check (runes_of_ascii "options
+
+{	// " ++ [27880; 37322]%N ++ runes_of_ascii "
+
+	i64_ //x
+
+	=""1"" }
+    options
+
+{matchKey
+	=65535 Header
+    =""x y""
+    stringy
+
+    = 
+//	t
+// a // b
+	true
+
+    ;
+    }	MetaData int { i8i8
+charz
+`u8 x,`
+	,
+}
+
+")).
+Eval vm_compute in ("<<<M224>>>" ++ check (runes_of_ascii "root
+packet Logon	{/// triple
+@calculatedFrom(
+    ""`tick`"" ) @rightPad ( ' '  )
+    @tag(
+    42 ) //	t
+char[ 3 ]
+trueish  @lengthOf(
+matchKey
+    // @lengthOf(
+    ) `" ++ [233]%N ++ runes_of_ascii "` ,}
+")).
+Eval vm_compute in ("<<<M4108>>>" ++ check (runes_of_ascii "
+MetaData	trueish {o
+	charz`tab	here`	,
+
+    }  MetaData  int
 {
-pack  = '\x00';  }")).
-Eval vm_compute in ("<<<M1315>>>" ++ check (runes_of_ascii "/// triple
-MetaData T {
-    string_ falsey `u8 x,`, // packet A { u8 x, }
-matchKey chars `u8 x,`, calculatedFrom
-f32a `doc` ,
-/// triple
-// trailing space 
-}")).
-Eval vm_compute in ("<<<M2404>>>" ++ check (runes_of_ascii "// c
+    zchar[
+4294967296 ] 
+a1
+`say ""hi""`
+	,  }
+
+options {charz 
+    //	t
+  =
+
+'0'
+    tag =
+
+""abc"" 
+}
+
+")).
+Eval vm_compute in ("<<<M4195>>>" ++ check (runes_of_ascii "// top
+packet chars {
+    // c2
+}
+
+// c3
+packet MetaDataX {
+    // c6
+    @tag(42)
+    // c9
+    i16 string_,
+    // c12
+    repeat x `say ""hi""`,
+    // c16
+}
+// c17")).
+Eval vm_compute in ("<<<M2377>>>" ++ check (runes_of_ascii "// c
 packet x { @lengthOf( metadata ) repeat lengthOf
-, ,a1{
+,a1{
+trueish	,// c
+repeat repeat//	t
+MetaDataX , } , zchar[
+    42	] rootA // `tick` ""quote"" 'q'
+,
+    }
+")).
+Eval vm_compute in ("<<<M531>>>" ++ check (runes_of_ascii "options
+    { // " ++ [27880; 37322]%N ++ runes_of_ascii "
+i64_//x
+= ""1""
+} options {matchKey =
+65535 Header = ""x y"" stringy
+=
+//	t
+// a // b
+true;  } MetaData int {	i8i8
+charz `u8 x,` ,
+    } 	 ")).
+Eval vm_compute in ("<<<M2385>>>" ++ check (runes_of_ascii "// c
+packet x { @lengthOf( metadata ) repeat lengthOf
+,a1{
+trueish	,// c
+repeat//	t
+MetaDataX ` , } , zchar[
+    42	] rootA // `tick` ""quote"" 'q'
+,
+    }
+")).
+Eval vm_compute in ("<<<M2115>>>" ++ check (runes_of_ascii "options{
+_x
+= true
+} options
+{ o o	= /// triple
+false
+    ; chars
+= ""\n"" } root packet	Pad
+/// triple
+// packet A { u8 x, }
+{	chars
+    // a // b
+    ,}")).
+Eval vm_compute in ("<<<M2122>>>" ++ check (runes_of_ascii "options{
+_x
+= true
+} options
+{ o	u8 /// triple
+false
+    ; chars
+= ""\n"" } root packet	Pad
+/// triple
+// packet A { u8 x, }
+{	chars
+    // a // b
+    ,}")).
+Eval vm_compute in ("<<<M2102>>>" ++ check (runes_of_ascii "options{
+_x
+= true
+{ options
+{ o	= /// triple
+false
+    ; chars
+= ""\n"" } root packet	Pad
+/// triple
+// packet A { u8 x, }
+{	chars
+    // a // b
+    ,}")).
+Eval vm_compute in ("<<<M2097>>>" ++ check (runes_of_ascii "options{
+_x
+= i32
+} options
+{ o	= /// triple
+false
+    ; chars
+= ""\n"" } root packet	Pad
+/// triple
+// packet A { u8 x, }
+{	chars
+    // a // b
+    ,}")).
+Eval vm_compute in ("<<<M2386>>>" ++ check (runes_of_ascii "// c
+packet x { @lengthOf( i32 ) repeat lengthOf
+,a1{
 trueish	,// c
 repeat//	t
 MetaDataX , } , zchar[
@@ -2196,445 +2676,361 @@ MetaDataX , } , zchar[
 ,
     }
 ")).
-Eval vm_compute in ("<<<M2185>>>" ++ check (runes_of_ascii "options{
-_x
-= true
-} options
-{ o	= /// triple
-false
-    ; chars
-= ""\n"" } root packet	Pad
-/// triple
-// packet A { u8 x, }
-{	chars
-    // a // b
-    ,} }")).
-Eval vm_compute in ("<<<M2192>>>" ++ check (runes_of_ascii "options{
-_x
-= true
-} options
-{ o	= /// triple
-false
-  /  ; chars
-= ""\n"" } root packet	Pad
-/// triple
-// packet A { u8 x, }
-{	chars
-    // a // b
-    ,}")).
-Eval vm_compute in ("<<<M2131>>>" ++ check (runes_of_ascii "options{
-_x
-= true
-} options
-{ o	= /// triple
-false
-    chars ;
-= ""\n"" } root packet	Pad
-/// triple
-// packet A { u8 x, }
-{	chars
-    // a // b
-    ,}")).
-Eval vm_compute in ("<<<M2179>>>" ++ check (runes_of_ascii "options{
-_x
-= true
-} options
-{ o	= /// triple
-false
-    ; chars
-= ""\n"" } root packet	Pad
-/// triple
-// packet A { u8 x, }
-{	chars
-    // a // b
-    }")).
-Eval vm_compute in ("<<<M2154>>>" ++ check (runes_of_ascii "options{
-_x
-= true
-} options
-{ o	= /// triple
-false
-    ; chars
-= ""\n"" }  packet	Pad
-/// triple
-// packet A { u8 x, }
-{	chars
-    // a // b
-    ,}")).
-Eval vm_compute in ("<<<M4175>>>" ++ check (runes_of_ascii "packet body {
-    @leftPad()
-    zchar[0] metadata,
-    chars {
-        repeat u8 string_,
-        string options1 @calculatedFrom(""" ++ [28040; 24687]%N ++ runes_of_ascii """),
-    },
-}")).
-Eval vm_compute in ("<<<M1116>>>" ++ check (runes_of_ascii "//x
-options {
-    pack = ""{,}"" ; asx = 65535 ; u
-= zchar[ 007 ] ;
-    // trailing space 
-    i8i8
-=char[]
-As //x
-=' ' } // packet A { u8 x, }")).
-Eval vm_compute in ("<<<M20>>>" ++ check (runes_of_ascii "options { x_y_z =  """ ++ [128512]%N ++ runes_of_ascii """
-/// triple
-// @lengthOf(
-options1 =
-""a\\""  ;
-    x_y_z  = 255 ; } //x
-packet
-    charz {
-    } // trailing space ")).
-Eval vm_compute in ("<<<M619>>>" ++ check (runes_of_ascii "packet u {
-    uint16 // a // b
-chars  `" ++ [28040; 24687; 31867; 22411]%N ++ runes_of_ascii "`	,// `tick` ""quote"" 'q'
-} root	packet T
-{	leftPad
-Foo `" ++ [28040; 24687; 31867; 22411]%N ++ runes_of_ascii "`
-    ,
-}
-// @lengthOf(
+Eval vm_compute in ("<<<M3585>>>" ++ check (runes_of_ascii "
+packet A
+    { 
+u8	a
+,	} packet
+    B{  u16 b, } root	packet 
+P
+	{ u8  K , match  K
+as M
+	{
+
+[
+
+    1, 2	] :	A	,
+
+3
+    : B ,
+7:
+A  , }  , }
 ")).
-Eval vm_compute in ("<<<M3547>>>" ++ check (runes_of_ascii "packet  B
+Eval vm_compute in ("<<<M973>>>" ++ check (runes_of_ascii "
+options
+{ BodyLength
+= zchar[ 0123456789 ] } options
 {
-    u8
-a
-
-    ,
-}root
-    packet P {
-
-u8 K
-
-,
-	u64
-L
-
-@lengthOf(	Body ) ,	match
-K 
-as
-Body{
-	1
-:
-
-B,} 
-,
-}
+asx = ""a\""b"" ;rootA =	char[] roots
+=""{,}"" ; int= ""it's"" // `tick` ""quote"" 'q'
+; }
 ")).
-Eval vm_compute in ("<<<M3185>>>" ++ check (runes_of_ascii "// top
-root
-    // c0
-packet
-    // c1
-u128
-    // c2
+Eval vm_compute in ("<<<M4224>>>" ++ check (runes_of_ascii "
+
+  packet  MetaDataX
 {
-    // c3
-chars
-    // c4
-`it's`
-    // c5
-,
-    // c6
-}
-    // c7
-")).
-Eval vm_compute in ("<<<M3316>>>" ++ check (runes_of_ascii "root packet matchKey // c
-{ zchar[ 3 ] pack @calculatedFrom( ""a	b"" ) `doc` , } options { } MetaData A { int8 msg_type , }")).
-Eval vm_compute in ("<<<M3348>>>" ++ check (runes_of_ascii "root packet matchKey { zchar[ 3 ] pack @calculatedFrom( ""a	b"" ) `doc` , } options { } MetaData A // c
-{ int8 msg_type , }")).
-Eval vm_compute in ("<<<M4237>>>" ++ check (runes_of_ascii "//x
-options {
-    Header = char[];
-}
+repeat
 
-MetaData Z9_ {
-    x_y_z Header `crlf
-    line`,
-    string pack,
-}
+tag
 
-options {
-}")).
-Eval vm_compute in ("<<<M1444>>>" ++ check (runes_of_ascii "
-packet
-    falsey { Header@calculatedFrom(""packet""  ) , char[
-    ] 0123456789 packetx
-    , } // `tick` ""quote"" 'q'")).
-Eval vm_compute in ("<<<M4112>>>" ++ check (runes_of_ascii "packet
-A { match
+    i64_ 
+, @calculatedFrom(
 
-k	as
-
-    n
-    { [	1 , 22
-,""c c""
-	,
-4
-,5
-
+    ""packet"" ) 
+	// trailing space 
+	Packet 
+`tab	here`
     ,
-
-    ""f"",
-    7  ,  8]
-	:
-B	2:
-C }
-,}
+}
 ")).
-Eval vm_compute in ("<<<M961>>>" ++ check (runes_of_ascii "
-options{ Pad
-=zchar[
-    10
-    ]  ;a1 //
-=
-    ""1""	stringy
-=
-""{,}""
-;
-uint8x='0' BodyLength =
-    1 ; //	t
-}")).
-Eval vm_compute in ("<<<M4261>>>" ++ check (runes_of_ascii "MetaData
-body
-{i64
+Eval vm_compute in ("<<<M4511>>>" ++ check (runes_of_ascii "MetaData options1 {
+    lengthOf As,
+    char[255] crc,
+    char[] leftPad,
+    As leftPad,
+    uint16 u128,
+    f32 x `{ , }`,
+}
+//	t")).
+Eval vm_compute in ("<<<M3562>>>" ++ check (runes_of_ascii "
+options{
+	LittleEndian  =
+true
+; 
+}
+    root  packet P  { u16
+	a
+,
 
-pack
-`it's`
+    u32
+    Sum
 
-, }
+    @calculatedFrom(
 
-packet
-    stringy  
-      // c
-    	{
-    int16 calculatedFrom
-,  }
+""CRC32"" 
+) , }
 ")).
-Eval vm_compute in ("<<<M3039>>>" ++ check (runes_of_ascii "packet A {
-    u16 len @lengthOf(body) `
-x`,
-    u32 crc @calculatedFrom(""CRC32"") `
-x`,
+Eval vm_compute in ("<<<M3021>>>" ++ check (runes_of_ascii "packet A {
+    u16 len @lengthOf(body) `a
+    b
+  c`,
+    u32 crc @calculatedFrom(""CRC32"") `a
+    b
+  c`,
     string body,
 }")).
-Eval vm_compute in ("<<<M3681>>>" ++ check (runes_of_ascii "MetaData body { i64 pack
-
-    `it's`,
-    } 
-packet	stringy { int16
-	    // c
-		calculatedFrom	, }
-")).
-Eval vm_compute in ("<<<M4049>>>" ++ check (runes_of_ascii "packet
-
-o
-
-    {repeat	Logon 
-uint8x  ,
-}options{ asx
-=
-	zchar[ 
-3 ]  stringy='\x00'} 
+Eval vm_compute in ("<<<M2337>>>" ++ check (runes_of_ascii "// c
+packet x { @lengthOf( metadata ) repeat lengthOf
+,a1{
+trueish	,// c
+repeat//	t
+MetaDataX , } , zchar[
+    42	] root")).
+Eval vm_compute in ("<<<M3342>>>" ++ check (runes_of_ascii "root packet matchKey { zchar[ 3 ] pack @calculatedFrom( ""a	b"" ) `doc` , } options { // c
+} MetaData A { int8 msg_type , }")).
+Eval vm_compute in ("<<<M1475>>>" ++ check (runes_of_ascii "
+packet
+    falsey { Header@calculatedFrom(""packet""  ) , < char[
+    0123456789 ] packetx
+    , } // `tick` ""quote"" 'q'")).
+Eval vm_compute in ("<<<M1404>>>" ++ check (runes_of_ascii "
+packet
+    { falsey Header@calculatedFrom(""packet""  ) , char[
+    0123456789 ] packetx
+    , } // `tick` ""quote"" 'q'")).
+Eval vm_compute in ("<<<M1765>>>" ++ check (runes_of_ascii "options { trueish = ""`tick`"" ; string_= """ ++ [233]%N ++ runes_of_ascii "t" ++ [233]%N ++ runes_of_ascii """
     // c
-")).
-Eval vm_compute in ("<<<M3856>>>" ++ check (runes_of_ascii "
-root
-    packet
-calculatedFrom 
-{	uint8
-
-pack  @lengthOf(
-	crc) 	 //
-	`// not a comment`,
-
-} ")).
-Eval vm_compute in ("<<<M1095>>>" ++ check (runes_of_ascii "// @lengthOf(
-MetaData Logon	{	char[]
-//	t
-// " ++ [27880; 37322]%N ++ runes_of_ascii "
-Foo // c
-, T
-roots , char[65535 ] Z9_ ,
-}
-")).
-Eval vm_compute in ("<<<M2976>>>" ++ check (runes_of_ascii "packet A {
+    } root
+    packet body { stringy @calculatedFrom(
+""a	b"" )")).
+Eval vm_compute in ("<<<M2424>>>" ++ check (runes_of_ascii "// c
+packet x { @lengthOf( metadata ) repeat lengthOf
+,a1{
+trueish	,// c
+repeat//	t
+MetaDataX , } , zchar[
+    ")).
+Eval vm_compute in ("<<<M3057>>>" ++ check (runes_of_ascii "packet A {
+    match k as n {
+        ""\
+"" : B,
+        [""\
+"", 1] : C,
+        [1,2,3,4,5,""\
+""] : D,
+    },
+}")).
+Eval vm_compute in ("<<<M2965>>>" ++ check (runes_of_ascii "packet A {
   match k as n {
-    [1, 22, 007, 4, 5, 66, 7, 8, 9, 10, 11] : B
+    [""a"", ""bb"", ""c c"", ""d"", ""e"", ""f"", ""g"", ""h"", ""i"", ""j""] : B
     2 : C
   },
 }")).
-Eval vm_compute in ("<<<M3484>>>" ++ check (runes_of_ascii "
+Eval vm_compute in ("<<<M289>>>" ++ check (runes_of_ascii "packet a1 {
+}
+options{
+MetaDataX = ""`tick`"" uint8x = false; f32a = zchar[	00] ; } // `tick` ""quote"" 'q'")).
+Eval vm_compute in ("<<<M3699>>>" ++ check (runes_of_ascii "
+
+  packet
+A {u16 	 // a
+	len // b
+@lengthOf( // c
+
+  body 	 // d
+)  // e
+    `d` // f
+
+	,
+
+    }")).
+Eval vm_compute in ("<<<M379>>>" ++ check (runes_of_ascii "options{zchar=	true
 // c
-packet chars { } packet MetaDataX { @tag( 42 ) i16 string_ , repeat x `say ""hi""` , }")).
-Eval vm_compute in ("<<<M3284>>>" ++ check (runes_of_ascii "MetaData float { float64 charz `
-` , }
+/// triple
+BodyLength  = char[]
+; x// " ++ [27880; 37322]%N ++ runes_of_ascii "
+=  char[007 ]
+    ;} /// triple")).
+Eval vm_compute in ("<<<M2967>>>" ++ check (runes_of_ascii "packet A {
+  match k as n {
+    [1, ""bb"", 007, ""d"", 5, ""f"", 7, ""h"", 9, ""j""] : B
+    2 : C
+  },
+}")).
+Eval vm_compute in ("<<<M1396>>>" ++ check (runes_of_ascii "root packet SimpleMessage {
+    uint16 MsgType `" ++ [28040; 24687; 31867; 22411]%N ++ runes_of_ascii "`,
+    string JsonBody `Json" ++ [23383; 31526; 20018; 28040; 24687; 20307]%N ++ runes_of_ascii "`,
+}")).
+Eval vm_compute in ("<<<M2277>>>" ++ check (runes_of_ascii "options
+{ } options { BodyLength= u16 Header= f64 ; u128 =
+    true true
+    ; } // a // b")).
+Eval vm_compute in ("<<<M181>>>" ++ check (runes_of_ascii "MetaData a1 { Foo body
+`{ , }`
+    , int32
+int`` ,i32 a1 `" ++ [28040; 24687; 31867; 22411]%N ++ runes_of_ascii "`
+, int8 msg_type `` , }
+
+")).
+Eval vm_compute in ("<<<M3290>>>" ++ check (runes_of_ascii "MetaData float { float64 charz `
+` , } root packet chars
 // c
-root packet chars { @rightPad ( '0' ) Foo , }")).
-Eval vm_compute in ("<<<M3495>>>" ++ check (runes_of_ascii "packet chars { } packet MetaDataX // c
-{ @tag( 42 ) i16 string_ , repeat x `say ""hi""` , }")).
-Eval vm_compute in ("<<<M2227>>>" ++ check (runes_of_ascii "options
-{ } options { { BodyLength= u16 Header= f64 ; u128 =
-    true
-    ; } // a // b")).
-Eval vm_compute in ("<<<M2303>>>" ++ check (runes_of_ascii "options
-{ } options { BodyLength= u16% Header= f64 ; u128 =
-    true
-    ; } // a // b")).
-Eval vm_compute in ("<<<M2243>>>" ++ check (runes_of_ascii "options
-{ } options { BodyLength= Header u16= f64 ; u128 =
-    true
-    ; } // a // b")).
-Eval vm_compute in ("<<<M3234>>>" ++ check (runes_of_ascii "packet metadata { Logon { A `" ++ [28040; 24687; 31867; 22411]%N ++ runes_of_ascii "` , tag o ,
-// c
-} , zchar len `// not a comment` , }")).
-Eval vm_compute in ("<<<M2281>>>" ++ check (runes_of_ascii "options
+{ @rightPad ( '0' ) Foo , }")).
+Eval vm_compute in ("<<<M3501>>>" ++ check (runes_of_ascii "packet chars { } packet MetaDataX { @tag( 42 // c
+) i16 string_ , repeat x `say ""hi""` , }")).
+Eval vm_compute in ("<<<M2282>>>" ++ check (runes_of_ascii "options
 { } options { BodyLength= u16 Header= f64 ; u128 =
     true
-     } // a // b")).
-Eval vm_compute in ("<<<M3454>>>" ++ check (runes_of_ascii "packet o { repeat Logon uint8x , } options { asx = zchar[
+    ; ; } // a // b")).
+Eval vm_compute in ("<<<M3020>>>" ++ check (runes_of_ascii "packet A {
+    B b `a
+    b
+  c`,
+    B `a
+    b
+  c`,
+    repeat B bs `a
+    b
+  c`,
+}")).
+Eval vm_compute in ("<<<M2283>>>" ++ check (runes_of_ascii "options
+{ } options { BodyLength= u16 Header= f64 ; u128 =
+    true
+    } ; // a // b")).
+Eval vm_compute in ("<<<M3241>>>" ++ check (runes_of_ascii "packet metadata { Logon { A `" ++ [28040; 24687; 31867; 22411]%N ++ runes_of_ascii "` , tag o , } , zchar len // c
+`// not a comment` , }")).
+Eval vm_compute in ("<<<M3432>>>" ++ check (runes_of_ascii "packet o
 // c
-3 ] stringy = '\x00' }")).
-Eval vm_compute in ("<<<M1054>>>" ++ check (runes_of_ascii "MetaData A { } packet
-    asx { @calculatedFrom(""`tick`""
-) matchKey uint8x `" ++ [233]%N ++ runes_of_ascii "` ,
-}
-")).
-Eval vm_compute in ("<<<M3399>>>" ++ check (runes_of_ascii "MetaData body {
+{ repeat Logon uint8x , } options { asx = zchar[ 3 ] stringy = '\x00' }")).
+Eval vm_compute in ("<<<M3464>>>" ++ check (runes_of_ascii "packet o { repeat Logon uint8x , } options { asx = zchar[ 3 ] stringy = '\x00'
 // c
-i64 pack `it's` , } packet stringy { int16 calculatedFrom , }")).
-Eval vm_compute in ("<<<M2917>>>" ++ check (runes_of_ascii "packet A {
+}")).
+Eval vm_compute in ("<<<M2928>>>" ++ check (runes_of_ascii "packet A {
   match k as n {
-    [""a"", 22, ""c c"", 4, ""e"", 66] : B
+    [1, ""bb"", 007, ""d"", 5, ""f"", 7] : B
     2 : C
   },
 }")).
-Eval vm_compute in ("<<<M3536>>>" ++ check (runes_of_ascii "packet Inner {
-    u8 a,
-}
-root packet P {
-    repeat Inner items,
-    u8 x,
-}
-")).
-Eval vm_compute in ("<<<M1924>>>" ++ check (runes_of_ascii "MetaData
-    u { }  options {
+Eval vm_compute in ("<<<M3407>>>" ++ check (runes_of_ascii "MetaData body { i64 pack `it's` ,
 // c
-// @lengthOf(
-float = int8 ;rootA =false")).
-Eval vm_compute in ("<<<M2716>>>" ++ check (runes_of_ascii "string @tag( float64 ""packet"" u16 packet { ( f32 } @calculatedFrom( : as")).
-Eval vm_compute in ("<<<M161>>>" ++ check (runes_of_ascii "// trailing space 
-packet
-Header { // c
-repeat  char[] MetaDataX , }")).
-Eval vm_compute in ("<<<M2880>>>" ++ check (runes_of_ascii "packet A {
+} packet stringy { int16 calculatedFrom , }")).
+Eval vm_compute in ("<<<M3907>>>" ++ check (runes_of_ascii "MetaData Packet {
+}
+
+options {
+    Z9_ = char[];
+    _x = '0';
+    body = false
+}")).
+Eval vm_compute in ("<<<M415>>>" ++ check (runes_of_ascii "MetaData T { char[] packetx //	t
+,//
+Packet
+    u ,i32 _x , uint16
+    asx, }
+")).
+Eval vm_compute in ("<<<M1307>>>" ++ check (runes_of_ascii "options // `tick` ""quote"" 'q'
+{ stringy='\x00'  ;
+msg_type
+= float32
+}
+
+")).
+Eval vm_compute in ("<<<M738>>>" ++ check (runes_of_ascii "MetaData Foo { char[ 4294967296  ] BodyLength
+    //
+    `tab	here`
+, }
+")).
+Eval vm_compute in ("<<<M2877>>>" ++ check (runes_of_ascii "packet A {
   match k as n {
-    [1, 22, ""c c""] : B
+    [""a"", 22, ""c c""] : B,
     2 : C
   },
 }")).
-Eval vm_compute in ("<<<M976>>>" ++ check (runes_of_ascii "// trailing space 
-packet/// triple
-Foo
-{ zchar[ 255 ]body	,
-}
+Eval vm_compute in ("<<<M552>>>" ++ check (runes_of_ascii "  options{ i8i8 = true// " ++ [128512]%N ++ runes_of_ascii " emoji
+chars = 42
+    /// triple
+    ; }
 ")).
-Eval vm_compute in ("<<<M765>>>" ++ check (runes_of_ascii "// trailing space 
-packet x_y_z { @tag( 255 )char[] float ,
+Eval vm_compute in ("<<<M3815>>>" ++ check (runes_of_ascii "
+root
+
+    packet
+
+u128
+
+{ char[
+
+    007  ] 
+MetaDataX ,	}
+")).
+Eval vm_compute in ("<<<M235>>>" ++ check (runes_of_ascii "// " ++ [128512]%N ++ runes_of_ascii " emoji
+options {repeatCount = u32 ;tag = ' ' ; } // a // b")).
+Eval vm_compute in ("<<<M3946>>>" ++ check (runes_of_ascii "packet pack {
+    //	t
+    repeat zchar As,
+    i16 roots,
 }")).
-Eval vm_compute in ("<<<M2665>>>" ++ check (runes_of_ascii "options { a = true; b = false; c = '0'; d = ""s""; e = 007; }")).
-Eval vm_compute in ("<<<M3374>>>" ++ check (runes_of_ascii "packet x { @rightPad (
+Eval vm_compute in ("<<<M3366>>>" ++ check (runes_of_ascii "packet
 // c
-) repeat roots Logon `doc` , }")).
-Eval vm_compute in ("<<<M4475>>>" ++ check (runes_of_ascii "packet matchKey {
-    @leftPad('0')
-    int16 options1,
+x { @rightPad ( ) repeat roots Logon `doc` , }")).
+Eval vm_compute in ("<<<M3181>>>" ++ check (runes_of_ascii "packet A {
+    match k as n {
+        1 : B,// c
+    },
 }")).
-Eval vm_compute in ("<<<M3177>>>" ++ check (runes_of_ascii "packet A { repeat // a
- B // b
- b // c
- `d` // e
- , }")).
-Eval vm_compute in ("<<<M4122>>>" ++ check (runes_of_ascii "
+Eval vm_compute in ("<<<M263>>>" ++ check (runes_of_ascii "root
+packet i8i8 { @lengthOf(
+Packet)
+    u32 u8x, }")).
+Eval vm_compute in ("<<<M3779>>>" ++ check (runes_of_ascii "options
+    { a
+=
+    1	// c
 
-  root
-packet
+b	=
 
-    pack
-
-    {
-
-}
-    // c
-")).
-Eval vm_compute in ("<<<M3839>>>" ++ check (runes_of_ascii "
-
-  root
-	packet
-u128{ chars// c
-
-`it's`	, 
-}
-")).
-Eval vm_compute in ("<<<M3005>>>" ++ check (runes_of_ascii "MetaData M {
+2
+;// d
+    } ")).
+Eval vm_compute in ("<<<M3029>>>" ++ check (runes_of_ascii "MetaData M {
     u8 x `a
+
 b`,
     T t `a
+
 b`,
 }")).
-Eval vm_compute in ("<<<M3961>>>" ++ check (runes_of_ascii "packet msg_type {
-    repeat lengthOf _x,
-}")).
-Eval vm_compute in ("<<<M2588>>>" ++ check (runes_of_ascii "packet A { x @calculatedFrom(""c"") `d`, }")).
-Eval vm_compute in ("<<<M2609>>>" ++ check (runes_of_ascii "packet A { match k as n { [1,] : B }, }")).
-Eval vm_compute in ("<<<M3985>>>" ++ check (runes_of_ascii "root packet A {
-    u8 x `a
-    b`,
-}")).
-Eval vm_compute in ("<<<M2604>>>" ++ check (runes_of_ascii "packet A { match k as n { 1 : B } }")).
-Eval vm_compute in ("<<<M4022>>>" ++ check (runes_of_ascii "MetaData crc {
-    uint8x float,
-}")).
-Eval vm_compute in ("<<<M2657>>>" ++ check (runes_of_ascii "options { a = 1; b = 2 c = 3;; }")).
-Eval vm_compute in ("<<<M2118>>>" ++ check (runes_of_ascii "options{
-_x
-= true
-} options
-{")).
-Eval vm_compute in ("<<<M1889>>>" ++ check (runes_of_ascii "MetaData
-    u { }  options {")).
-Eval vm_compute in ("<<<M2649>>>" ++ check (runes_of_ascii "MetaData M { repeat u8 x, }")).
-Eval vm_compute in ("<<<M3968>>>" ++ check (runes_of_ascii "packet	Logon {
-Foo 
-,  }
-
+Eval vm_compute in ("<<<M2843>>>" ++ check (runes_of_ascii ", float32 int8 `" ++ [233]%N ++ runes_of_ascii "` char[] } { u16 { options }")).
+Eval vm_compute in ("<<<M1199>>>" ++ check (runes_of_ascii "
+MetaData u8x { msg_type
+    matchKey, }
 ")).
-Eval vm_compute in ("<<<M2581>>>" ++ check (runes_of_ascii "packet A { char[ 3 ] , }")).
-Eval vm_compute in ("<<<M2743>>>" ++ check (runes_of_ascii "int64 [ ; { char[] u32")).
-Eval vm_compute in ("<<<M2667>>>" ++ check (runes_of_ascii "options { a = [1]; }")).
-Eval vm_compute in ("<<<M2771>>>" ++ check (runes_of_ascii "W" ++ [23; 65533]%N ++ runes_of_ascii "-" ++ [65533; 65533; 65533]%N ++ runes_of_ascii ">Dv" ++ [65533; 65533; 65533]%N ++ runes_of_ascii "~>Z" ++ [65533; 65533; 65533]%N)).
-Eval vm_compute in ("<<<M3060>>>" ++ check (runes_of_ascii "packet A {
-}
-// c ")).
-Eval vm_compute in ("<<<M3141>>>" ++ check (runes_of_ascii "// c" ++ [6158]%N ++ runes_of_ascii "
+Eval vm_compute in ("<<<M3187>>>" ++ check (runes_of_ascii "// c
+root packet u128 { chars `it's` , }")).
+Eval vm_compute in ("<<<M4165>>>" ++ check (runes_of_ascii "MetaData x {
+    int32 a1 `say ""hi""`,
+}")).
+Eval vm_compute in ("<<<M2605>>>" ++ check (runes_of_ascii "packet A { match k as n { 1 : B }, }")).
+Eval vm_compute in ("<<<M2783>>>" ++ check ([14]%N ++ runes_of_ascii "2" ++ [65533; 12]%N ++ runes_of_ascii "p[kGJ" ++ [1244; 65533; 65533]%N ++ runes_of_ascii "_*Q`" ++ [65533; 6; 65533]%N ++ runes_of_ascii "VT;" ++ [65533; 65533; 65533]%N ++ runes_of_ascii "85:r" ++ [65533]%N ++ runes_of_ascii "V" ++ [65533; 65533; 65533; 65533]%N)).
+Eval vm_compute in ("<<<M1501>>>" ++ check (runes_of_ascii "packet
+//	t
+// trailing space 
+_x")).
+Eval vm_compute in ("<<<M3909>>>" ++ check (runes_of_ascii "packet A {
+    u8 x `d" ++ [8202]%N ++ runes_of_ascii "`,// c" ++ [8202]%N ++ runes_of_ascii "
+}")).
+Eval vm_compute in ("<<<M2761>>>" ++ check (runes_of_ascii "@rightPad ( ) float64 root u64")).
+Eval vm_compute in ("<<<M3007>>>" ++ check (runes_of_ascii "packet A {
+    u8 x `a
+b`,
+}")).
+Eval vm_compute in ("<<<M2712>>>" ++ check (runes_of_ascii """1"" char u32 @rightPad int8")).
+Eval vm_compute in ("<<<M11>>>" ++ check (runes_of_ascii "options { falsey
+= false}")).
+Eval vm_compute in ("<<<M990>>>" ++ check (runes_of_ascii "
+root packet
+zchar {	}
+")).
+Eval vm_compute in ("<<<M815>>>" ++ check (runes_of_ascii " // packet A { u8 x, }")).
+Eval vm_compute in ("<<<M1031>>>" ++ check (runes_of_ascii "root packet u128 { }")).
+Eval vm_compute in ("<<<M2574>>>" ++ check (runes_of_ascii "packet A { x `d`, }")).
+Eval vm_compute in ("<<<M2725>>>" ++ check (runes_of_ascii "Sq]fX""YE68*gwilIN=")).
+Eval vm_compute in ("<<<M3136>>>" ++ check (runes_of_ascii "// c" ++ [65279]%N ++ runes_of_ascii "
 packet A {
 }")).
-Eval vm_compute in ("<<<M3108>>>" ++ check (runes_of_ascii "packet A {
-}// c" ++ [8287]%N)).
-Eval vm_compute in ("<<<M2571>>>" ++ check (runes_of_ascii "packet A { x, }")).
-Eval vm_compute in ("<<<M968>>>" ++ check (runes_of_ascii "options { }
+Eval vm_compute in ("<<<M3103>>>" ++ check (runes_of_ascii "packet A {
+}// c" ++ [8239]%N)).
+Eval vm_compute in ("<<<M2494>>>" ++ check (runes_of_ascii "@calculatedFrom")).
+Eval vm_compute in ("<<<M929>>>" ++ check (runes_of_ascii "
+// " ++ [128512]%N ++ runes_of_ascii " emoji
 ")).
 Eval vm_compute in ("<<<M2636>>>" ++ check (runes_of_ascii "packet A {")).
-Eval vm_compute in ("<<<M4585>>>" ++ check (runes_of_ascii "
-
-  //
-")).
-Eval vm_compute in ("<<<M2458>>>" ++ check (runes_of_ascii "string")).
-Eval vm_compute in ("<<<M2512>>>" ++ check (runes_of_ascii """a
-b""")).
-Eval vm_compute in ("<<<M2470>>>" ++ check (runes_of_ascii "ROOT")).
-Eval vm_compute in ("<<<M2499>>>" ++ check (runes_of_ascii "/ /")).
-Eval vm_compute in ("<<<M2476>>>" ++ check (runes_of_ascii "''")).
-Eval vm_compute in ("<<<M2678>>>" ++ check (runes_of_ascii "1")).
+Eval vm_compute in ("<<<M1406>>>" ++ check (runes_of_ascii "
+packet")).
+Eval vm_compute in ("<<<M2722>>>" ++ check (runes_of_ascii "w""Bn;m")).
+Eval vm_compute in ("<<<M3069>>>" ++ check (runes_of_ascii "// c" ++ [160]%N)).
+Eval vm_compute in ("<<<M2523>>>" ++ check (runes_of_ascii "`
+`")).
+Eval vm_compute in ("<<<M2532>>>" ++ check (runes_of_ascii "a-b")).
+Eval vm_compute in ("<<<M2536>>>" ++ check (runes_of_ascii "__")).
+Eval vm_compute in ("<<<M111>>>" ++ check (@nil rune)).
